@@ -1117,4 +1117,2122 @@ theorem typeName_map (v : Val) : typeName (mapPos g v) = typeName v := by cases 
 
 end corehelpers
 
+/-- `g`-image of the outcome of a pure builtin -/
+def mapBRes (g : Option Pos → Option Pos) : BRes → BRes
+  | .ok v => .ok (mapPos g v)
+  | .thrown v => .thrown (mapPos g v)
+  | .goerr m => .goerr m
+
+section corefuns
+variable {g : Option Pos → Option Pos} (hg : PosMap g)
+
+theorem newHashMapLoop_map : ∀ (xs : List Val) (m : List (String × Val)),
+    Core.newHashMapLoop (mapPosList g xs) (mapPosMap g m) = mapBRes g (Core.newHashMapLoop xs m)
+  | [], m => rfl
+  | [x], m => by cases x <;> rfl
+  | a :: v :: r, m => by
+    cases a <;> simp only [mapPosList, mapPos, Core.newHashMapLoop] <;> try rfl
+    rw [ainsert_map]; exact newHashMapLoop_map r _
+
+theorem newHashMap_map (xs : List Val) : Core.newHashMap (mapPosList g xs) = mapBRes g (Core.newHashMap xs) := by
+  unfold Core.newHashMap
+  rw [mapPosList_length]
+  split
+  · rfl
+  · exact newHashMapLoop_map xs []
+
+theorem newSet_map : ∀ (xs : List Val) (s : List String),
+    Core.newSet (mapPosList g xs) s = mapBRes g (Core.newSet xs s)
+  | [], s => rfl
+  | a :: r, s => by
+    cases a <;> simp only [mapPosList, mapPos, Core.newSet] <;> try rfl
+    exact newSet_map r _
+
+theorem addKeys_map (what : String) : ∀ (xs : List Val) (s : List String),
+    addKeys what (mapPosList g xs) s = mapBRes g (addKeys what xs s)
+  | [], s => rfl
+  | a :: r, s => by
+    cases a <;> simp only [mapPosList, mapPos, addKeys] <;> try rfl
+    exact addKeys_map what r _
+
+theorem assocMap_map : ∀ (xs : List Val) (m : List (String × Val)),
+    assocMap (mapPosList g xs) (mapPosMap g m) = mapBRes g (assocMap xs m)
+  | [], m => rfl
+  | [x], m => by cases x <;> rfl
+  | a :: v :: r, m => by
+    cases a <;> simp only [mapPosList, mapPos, assocMap] <;> try rfl
+    rw [ainsert_map]; exact assocMap_map r _
+
+theorem conjMap_map : ∀ (xs : List Val) (m : List (String × Val)),
+    conjMap (mapPosList g xs) (mapPosMap g m) = mapBRes g (conjMap xs m)
+  | [], m => rfl
+  | [x], m => by cases x <;> rfl
+  | a :: v :: r, m => by
+    cases a <;> simp only [mapPosList, mapPos, conjMap] <;> try rfl
+    rw [ainsert_map]; exact conjMap_map r _
+
+theorem mapPosList_set (xs : List Val) (i : Nat) (v : Val) :
+    (mapPosList g xs).set i (mapPos g v) = mapPosList g (xs.set i v) := by
+  simp [mapPosList_eq, List.map_set]
+
+include hg in
+theorem assocVec_map : ∀ (r xs : List Val),
+    assocVec (mapPosList g r) (mapPosList g xs) = mapBRes g (assocVec r xs)
+  | [], xs => by simp [assocVec, mapBRes, mapPos, hg.none]
+  | [x], xs => by cases x <;> rfl
+  | a :: v :: r, xs => by
+    cases a <;> simp only [mapPosList, mapPos, assocVec] <;> try rfl
+    rw [mapPosList_length]
+    split
+    · rw [mapPosList_set]; exact assocVec_map r _
+    · rfl
+
+include hg in
+theorem assoc_map (a : List Val) : Core.assoc (mapPosList g a) = mapBRes g (Core.assoc a) := by
+  cases a with
+  | nil => rfl
+  | cons x r =>
+    cases x <;> simp only [mapPosList, mapPos, Core.assoc, List.length_cons, mapPosList_length] <;> try rfl
+    · split
+      · rfl
+      · exact assocVec_map hg r _
+    · split
+      · rfl
+      · split
+        · rfl
+        · exact assocMap_map r _
+    · split
+      · rfl
+      · exact addKeys_map "assoc" r _
+
+theorem aerase_map (k : String) (m : List (String × Val)) :
+    aerase k (mapPosMap g m) = mapPosMap g (aerase k m) := by
+  induction m with
+  | nil => rfl
+  | cons kv m ih =>
+    obtain ⟨k', v⟩ := kv
+    simp only [mapPosMap, aerase]
+    split
+    · rfl
+    · simp only [mapPosMap, ih]
+
+theorem all_isStr_map (r : List Val) : (mapPosList g r).all isStr = r.all isStr := by
+  induction r with
+  | nil => rfl
+  | cons x r ih => simp only [mapPosList, List.all_cons, isStr_map, ih]
+
+theorem foldl_map_gen {α : Type} (f : α → α) (step : α → Val → α)
+    (hstep : ∀ m k, step (f m) (mapPos g k) = f (step m k)) (r : List Val) (m : α) :
+    (mapPosList g r).foldl step (f m) = f (r.foldl step m) := by
+  induction r generalizing m with
+  | nil => rfl
+  | cons x r ih => simp only [mapPosList, List.foldl_cons, hstep, ih]
+
+theorem foldl_map_gen0 {α : Type} (step : α → Val → α)
+    (hstep : ∀ m k, step m (mapPos g k) = step m k) (r : List Val) (m : α) :
+    (mapPosList g r).foldl step m = r.foldl step m := by
+  induction r generalizing m with
+  | nil => rfl
+  | cons x r ih => simp only [mapPosList, List.foldl_cons, hstep, ih]
+
+theorem dissoc_map (a : List Val) : Core.dissoc (mapPosList g a) = mapBRes g (Core.dissoc a) := by
+  unfold Core.dissoc
+  rw [mapPosList_length]
+  split
+  · rfl
+  · cases a with
+    | nil => rfl
+    | cons x r =>
+      cases x <;> simp only [mapPosList, mapPos, all_isStr_map] <;> try rfl
+      · split
+        · rw [foldl_map_gen (mapPosMap g)]
+          · rfl
+          · intro m k; cases k <;> first | rfl | exact aerase_map _ _
+        · rfl
+      · split
+        · rw [foldl_map_gen0]
+          · rfl
+          · intro m k; cases k <;> rfl
+        · rfl
+
+theorem contains_eq (s : List String) (k : String) : s.contains k = s.contains k := rfl
+
+theorem get_map (hm key : Val) : Core.get (mapPos g hm) (mapPos g key) = mapBRes g (Core.get hm key) := by
+  cases key with
+  | str k =>
+    cases hm <;> simp only [mapPos, Core.get] <;> try rfl
+    · rw [alookup_map]; cases alookup k ‹List (String × Val)› <;> rfl
+    · split <;> rfl
+  | int i =>
+    cases hm <;> simp only [mapPos, Core.get, mapPosList_length] <;> try rfl
+    · split
+      · rw [mapPosList_getD]; rfl
+      · rfl
+    · split
+      · rw [mapPosList_getD]; rfl
+      · rfl
+  | _ => cases hm <;> rfl
+
+/-- the `branch` computation shared by `getIn` / `assocIn` / `updateIn`, on maps -/
+theorem branch_map_lookup (k : String) (m : List (String × Val)) :
+    (match (alookup k (mapPosMap g m)).getD .nil with | .nil => Val.map [] | b => b) =
+      mapPos g (match (alookup k m).getD .nil with | .nil => Val.map [] | b => b) := by
+  rw [alookup_map]
+  cases alookup k m with
+  | none => rfl
+  | some v => cases v <;> rfl
+
+include hg in
+theorem branch_list_getD (xs : List Val) (n : Nat) :
+    (match (mapPosList g xs).getD n .nil with | .nil => Val.list [] none | b => b) =
+      mapPos g (match xs.getD n .nil with | .nil => Val.list [] none | b => b) := by
+  rw [mapPosList_getD]
+  cases xs.getD n .nil <;> simp [mapPos, hg.none]
+
+include hg in
+theorem branch_vec_getD (xs : List Val) (n : Nat) :
+    (match (mapPosList g xs).getD n .nil with | .nil => Val.vec [] none | b => b) =
+      mapPos g (match xs.getD n .nil with | .nil => Val.vec [] none | b => b) := by
+  rw [mapPosList_getD]
+  cases xs.getD n .nil <;> simp [mapPos, hg.none]
+
+/-- the `branch` of `_getIn` -/
+def getBranch (v i : Val) : Option Val :=
+  match v, i with
+  | .map m, .str k => some (match (alookup k m).getD .nil with | .nil => .map [] | b => b)
+  | .list xs _, .int n => if 0 ≤ n ∧ n.toNat < xs.length then some (match xs.getD n.toNat .nil with | .nil => .list [] none | b => b) else none
+  | .vec xs _, .int n => if 0 ≤ n ∧ n.toNat < xs.length then some (match xs.getD n.toNat .nil with | .nil => .vec [] none | b => b) else none
+  | .map _, _ => none
+  | .list _ _, _ => none
+  | .vec _ _, _ => none
+  | _, _ => some .nil
+
+theorem getIn_cons2 (v i j : Val) (rest : List Val) :
+    getIn v (i :: j :: rest) =
+      match getBranch v i with
+      | none => .goerr "interface conversion or index out of range"
+      | some b => getIn b (j :: rest) := rfl
+
+include hg in
+theorem getBranch_map (v i : Val) :
+    getBranch (mapPos g v) (mapPos g i) = (getBranch v i).map (mapPos g) := by
+  cases v with
+  | map m =>
+    cases i <;> simp only [mapPos, getBranch] <;> try rfl
+    rw [branch_map_lookup]; rfl
+  | list xs p =>
+    cases i <;> simp only [mapPos, getBranch, mapPosList_length] <;> try rfl
+    split
+    · rw [branch_list_getD hg]; rfl
+    · rfl
+  | vec xs p =>
+    cases i <;> simp only [mapPos, getBranch, mapPosList_length] <;> try rfl
+    split
+    · rw [branch_vec_getD hg]; rfl
+    · rfl
+  | _ => cases i <;> rfl
+
+include hg in
+theorem getIn_map : ∀ (path : List Val) (v : Val),
+    getIn (mapPos g v) (mapPosList g path) = mapBRes g (getIn v path)
+  | [], v => rfl
+  | [i], v => get_map v i
+  | i :: j :: rest, v => by
+    simp only [mapPosList, getIn_cons2, getBranch_map hg]
+    cases getBranch v i with
+    | none => rfl
+    | some b => exact getIn_map (j :: rest) b
+
+/-- the `branch` of `_assocIn` -/
+def assocBranch (v i : Val) : Option Val :=
+  match v, i with
+  | .map m, .str k => some (match (alookup k m).getD .nil with | .nil => .map [] | b => b)
+  | .vec xs _, .int n => if 0 ≤ n ∧ n.toNat < xs.length then some (match xs.getD n.toNat .nil with | .nil => .vec [] none | b => b) else none
+  | .map _, _ => none
+  | .vec _ _, _ => none
+  | _, _ => some .nil
+
+theorem assocIn_cons2 (v i j : Val) (rest : List Val) (nv : Val) :
+    assocIn v (i :: j :: rest) nv =
+      match assocBranch v i with
+      | none => .goerr "interface conversion or index out of range"
+      | some b =>
+        match assocIn b (j :: rest) nv with
+        | .ok inner => Core.assoc [v, i, inner]
+        | r => r := rfl
+
+include hg in
+theorem assocBranch_map (v i : Val) :
+    assocBranch (mapPos g v) (mapPos g i) = (assocBranch v i).map (mapPos g) := by
+  cases v with
+  | map m =>
+    cases i <;> simp only [mapPos, assocBranch] <;> try rfl
+    rw [branch_map_lookup]; rfl
+  | vec xs p =>
+    cases i <;> simp only [mapPos, assocBranch, mapPosList_length] <;> try rfl
+    split
+    · rw [branch_vec_getD hg]; rfl
+    · rfl
+  | _ => cases i <;> rfl
+
+include hg in
+theorem assocIn_map : ∀ (path : List Val) (v nv : Val),
+    assocIn (mapPos g v) (mapPosList g path) (mapPos g nv) = mapBRes g (assocIn v path nv)
+  | [], v, nv => rfl
+  | [i], v, nv => assoc_map hg [v, i, nv]
+  | i :: j :: rest, v, nv => by
+    simp only [mapPosList, assocIn_cons2, assocBranch_map hg]
+    cases assocBranch v i with
+    | none => rfl
+    | some b =>
+      have ih := assocIn_map (j :: rest) b nv
+      simp only [mapPosList, Option.map_some] at ih ⊢
+      rw [ih]
+      cases assocIn b (j :: rest) nv with
+      | ok inner => exact assoc_map hg [v, i, inner]
+      | thrown t => rfl
+      | goerr m => rfl
+
+theorem foldl_kv_gen {α : Type} (f : α → α) (step step' : α → String × Val → α)
+    (hstep : ∀ acc k v, step' (f acc) (k, mapPos g v) = f (step acc (k, v)))
+    (d : List (String × Val)) (acc : α) :
+    (mapPosMap g d).foldl step' (f acc) = f (d.foldl step acc) := by
+  induction d generalizing acc with
+  | nil => rfl
+  | cons kv d ih =>
+    obtain ⟨k, v⟩ := kv
+    simp only [mapPosMap, List.foldl_cons, hstep, ih]
+
+theorem renameKeys_map (data alt : List (String × Val)) :
+    renameKeys (mapPosMap g data) (mapPosMap g alt) = mapBRes g (renameKeys data alt) := by
+  unfold renameKeys
+  simp only []
+  have h0 : (some [] : Option (List (String × Val))) = (some []).map (mapPosMap g) := rfl
+  conv => lhs; rw [h0]
+  rw [foldl_kv_gen (Option.map (mapPosMap g))]
+  · cases List.foldl _ (some []) data <;> rfl
+  · intro acc k v
+    cases acc with
+    | none => rfl
+    | some out =>
+      simp only [Option.map_some, Option.bind_some, alookup_map]
+      cases alookup k alt with
+      | none => simp only [Option.map_none, Option.map_some, ainsert_map]
+      | some w => cases w <;> simp only [Option.map_some, mapPos, ainsert_map, Option.map_none]
+
+end corefuns
+
+/-! ### the pure builtins commute with `mapPos` -/
+
+theorem sigOf_mem {name : String} {s : Sig} (h : sigOf name = some s) : name ∈ pureNames := by
+  unfold sigOf at h
+  simp only [] at h
+  split at h
+  all_goals first | (cases h; done) | simp [pureNames]
+
+theorem checkSig_map {g : Option Pos → Option Pos} (s : Sig) (args : List Val) :
+    checkSig s (mapPosList g args) = checkSig s args := by
+  cases s with
+  | variadic mn mx => simp only [checkSig, mapPosList_length]
+  | fixed ps =>
+    simp only [checkSig, mapPosList_length]
+    have : ∀ (ps : List PK) (args : List Val),
+        (ps.zip (mapPosList g args)).all (fun (p, a) => fits p a) = (ps.zip args).all (fun (p, a) => fits p a) := by
+      intro ps
+      induction ps with
+      | nil => intro args; rfl
+      | cons p ps ih =>
+        intro args
+        cases args with
+        | nil => rfl
+        | cons a args => simp only [mapPosList, List.zip_cons_cons, List.all_cons, fits_map, ih]
+    rw [this]
+
+section shapes
+variable {args : List Val}
+
+theorem fixed_len {ps : List PK} (h : checkSig (.fixed ps) args = none) :
+    args.length = ps.length ∧ (ps.zip args).all (fun (p, a) => fits p a) = true := by
+  simp only [checkSig] at h
+  split at h
+  · cases h
+  · split at h
+    · rename_i h1 h2; exact ⟨Classical.not_not.mp h1, h2⟩
+    · cases h
+
+theorem shape_1 (h : checkSig (.fixed [.any]) args = none) : ∃ a, args = [a] := by
+  obtain ⟨hl, _⟩ := fixed_len h
+  match args, hl with
+  | [a], _ => exact ⟨a, rfl⟩
+
+theorem shape_2 {p q : PK} (h : checkSig (.fixed [p, q]) args = none) :
+    ∃ a b, args = [a, b] ∧ fits p a = true ∧ fits q b = true := by
+  obtain ⟨hl, hf⟩ := fixed_len h
+  match args, hl, hf with
+  | [a, b], _, hf => simp at hf; exact ⟨a, b, rfl, hf.1, hf.2⟩
+
+theorem shape_3 {p q r : PK} (h : checkSig (.fixed [p, q, r]) args = none) :
+    ∃ a b c, args = [a, b, c] ∧ fits p a = true ∧ fits q b = true ∧ fits r c = true := by
+  obtain ⟨hl, hf⟩ := fixed_len h
+  match args, hl, hf with
+  | [a, b, c], _, hf => simp at hf; exact ⟨a, b, c, rfl, hf.1, hf.2.1, hf.2.2⟩
+
+theorem fits_int {a : Val} (h : fits .int a = true) : ∃ x, a = .int x := by
+  cases a <;> simp [fits] at h; exact ⟨_, rfl⟩
+theorem fits_str {a : Val} (h : fits .str a = true) : ∃ x, a = .str x := by
+  cases a <;> simp [fits] at h; exact ⟨_, rfl⟩
+theorem fits_vec {a : Val} (h : fits .vec a = true) : ∃ xs p, a = .vec xs p := by
+  cases a <;> simp [fits] at h; exact ⟨_, _, rfl⟩
+theorem fits_map' {a : Val} (h : fits .map a = true) : ∃ m, a = .map m := by
+  cases a <;> simp [fits] at h; exact ⟨_, rfl⟩
+
+theorem shape_ii (h : checkSig (.fixed [.int, .int]) args = none) : ∃ x y, args = [.int x, .int y] := by
+  obtain ⟨a, b, rfl, ha, hb⟩ := shape_2 h
+  obtain ⟨x, rfl⟩ := fits_int ha
+  obtain ⟨y, rfl⟩ := fits_int hb
+  exact ⟨x, y, rfl⟩
+
+end shapes
+
+section bm
+variable {g : Option Pos → Option Pos} (hg : PosMap g) {args : List Val}
+
+theorem bm_add (h : checkSig (.fixed [.int, .int]) args = none) :
+    body "+" (mapPosList g args) = mapBRes g (body "+" args) := by
+  obtain ⟨x, y, rfl⟩ := shape_ii h; rfl
+theorem bm_sub (h : checkSig (.fixed [.int, .int]) args = none) :
+    body "-" (mapPosList g args) = mapBRes g (body "-" args) := by
+  obtain ⟨x, y, rfl⟩ := shape_ii h; rfl
+theorem bm_mul (h : checkSig (.fixed [.int, .int]) args = none) :
+    body "*" (mapPosList g args) = mapBRes g (body "*" args) := by
+  obtain ⟨x, y, rfl⟩ := shape_ii h; rfl
+theorem bm_lt (h : checkSig (.fixed [.int, .int]) args = none) :
+    body "<" (mapPosList g args) = mapBRes g (body "<" args) := by
+  obtain ⟨x, y, rfl⟩ := shape_ii h; rfl
+theorem bm_le (h : checkSig (.fixed [.int, .int]) args = none) :
+    body "<=" (mapPosList g args) = mapBRes g (body "<=" args) := by
+  obtain ⟨x, y, rfl⟩ := shape_ii h; rfl
+theorem bm_gt (h : checkSig (.fixed [.int, .int]) args = none) :
+    body ">" (mapPosList g args) = mapBRes g (body ">" args) := by
+  obtain ⟨x, y, rfl⟩ := shape_ii h; rfl
+theorem bm_ge (h : checkSig (.fixed [.int, .int]) args = none) :
+    body ">=" (mapPosList g args) = mapBRes g (body ">=" args) := by
+  obtain ⟨x, y, rfl⟩ := shape_ii h; rfl
+theorem bm_div (h : checkSig (.fixed [.int, .int]) args = none) :
+    body "/" (mapPosList g args) = mapBRes g (body "/" args) := by
+  obtain ⟨x, y, rfl⟩ := shape_ii h
+  show body "/" [.int x, .int y] = _
+  rw [bodyEq_div]; split <;> rfl
+include hg in
+theorem bm_range (h : checkSig (.fixed [.int, .int]) args = none) :
+    body "range" (mapPosList g args) = mapBRes g (body "range" args) := by
+  obtain ⟨x, y, rfl⟩ := shape_ii h
+  show body "range" [.int x, .int y] = _
+  rw [bodyEq_range]; simp [mapBRes, mapPos, rangeList_map, hg.none]
+theorem bm_throw (h : checkSig (.fixed [.any]) args = none) :
+    body "throw" (mapPosList g args) = mapBRes g (body "throw" args) := by
+  obtain ⟨a, rfl⟩ := shape_1 h
+  show body "throw" [mapPos g a] = _
+  rw [bodyEq_throw, bodyEq_throw]; cases a <;> rfl
+theorem bm_typeQ (h : checkSig (.fixed [.any]) args = none) :
+    body "type?" (mapPosList g args) = mapBRes g (body "type?" args) := by
+  obtain ⟨a, rfl⟩ := shape_1 h
+  show body "type?" [mapPos g a] = _
+  rw [bodyEq_typeQ, bodyEq_typeQ]; cases a <;> rfl
+theorem bm_nilQ (h : checkSig (.fixed [.any]) args = none) :
+    body "nil?" (mapPosList g args) = mapBRes g (body "nil?" args) := by
+  obtain ⟨a, rfl⟩ := shape_1 h
+  show body "nil?" [mapPos g a] = _
+  rw [bodyEq_nilQ, bodyEq_nilQ]; cases a <;> rfl
+theorem bm_trueQ (h : checkSig (.fixed [.any]) args = none) :
+    body "true?" (mapPosList g args) = mapBRes g (body "true?" args) := by
+  obtain ⟨a, rfl⟩ := shape_1 h
+  show body "true?" [mapPos g a] = _
+  rw [bodyEq_trueQ, bodyEq_trueQ]; cases a <;> rfl
+theorem bm_falseQ (h : checkSig (.fixed [.any]) args = none) :
+    body "false?" (mapPosList g args) = mapBRes g (body "false?" args) := by
+  obtain ⟨a, rfl⟩ := shape_1 h
+  show body "false?" [mapPos g a] = _
+  rw [bodyEq_falseQ, bodyEq_falseQ]; cases a <;> rfl
+theorem bm_symbolQ (h : checkSig (.fixed [.any]) args = none) :
+    body "symbol?" (mapPosList g args) = mapBRes g (body "symbol?" args) := by
+  obtain ⟨a, rfl⟩ := shape_1 h
+  show body "symbol?" [mapPos g a] = _
+  rw [bodyEq_symbolQ, bodyEq_symbolQ]; cases a <;> rfl
+theorem bm_keywordQ (h : checkSig (.fixed [.any]) args = none) :
+    body "keyword?" (mapPosList g args) = mapBRes g (body "keyword?" args) := by
+  obtain ⟨a, rfl⟩ := shape_1 h
+  show body "keyword?" [mapPos g a] = _
+  rw [bodyEq_keywordQ, bodyEq_keywordQ]; cases a <;> rfl
+theorem bm_stringQ (h : checkSig (.fixed [.any]) args = none) :
+    body "string?" (mapPosList g args) = mapBRes g (body "string?" args) := by
+  obtain ⟨a, rfl⟩ := shape_1 h
+  show body "string?" [mapPos g a] = _
+  rw [bodyEq_stringQ, bodyEq_stringQ]; cases a <;> rfl
+theorem bm_numberQ (h : checkSig (.fixed [.any]) args = none) :
+    body "number?" (mapPosList g args) = mapBRes g (body "number?" args) := by
+  obtain ⟨a, rfl⟩ := shape_1 h
+  show body "number?" [mapPos g a] = _
+  rw [bodyEq_numberQ, bodyEq_numberQ]; cases a <;> rfl
+theorem bm_fnQ (h : checkSig (.fixed [.any]) args = none) :
+    body "fn?" (mapPosList g args) = mapBRes g (body "fn?" args) := by
+  obtain ⟨a, rfl⟩ := shape_1 h
+  show body "fn?" [mapPos g a] = _
+  rw [bodyEq_fnQ, bodyEq_fnQ]; cases a <;> rfl
+theorem bm_macroQ (h : checkSig (.fixed [.any]) args = none) :
+    body "macro?" (mapPosList g args) = mapBRes g (body "macro?" args) := by
+  obtain ⟨a, rfl⟩ := shape_1 h
+  show body "macro?" [mapPos g a] = _
+  rw [bodyEq_macroQ, bodyEq_macroQ]; cases a <;> rfl
+theorem bm_listQ (h : checkSig (.fixed [.any]) args = none) :
+    body "list?" (mapPosList g args) = mapBRes g (body "list?" args) := by
+  obtain ⟨a, rfl⟩ := shape_1 h
+  show body "list?" [mapPos g a] = _
+  rw [bodyEq_listQ, bodyEq_listQ]; cases a <;> rfl
+theorem bm_vectorQ (h : checkSig (.fixed [.any]) args = none) :
+    body "vector?" (mapPosList g args) = mapBRes g (body "vector?" args) := by
+  obtain ⟨a, rfl⟩ := shape_1 h
+  show body "vector?" [mapPos g a] = _
+  rw [bodyEq_vectorQ, bodyEq_vectorQ]; cases a <;> rfl
+theorem bm_mapQ (h : checkSig (.fixed [.any]) args = none) :
+    body "map?" (mapPosList g args) = mapBRes g (body "map?" args) := by
+  obtain ⟨a, rfl⟩ := shape_1 h
+  show body "map?" [mapPos g a] = _
+  rw [bodyEq_mapQ, bodyEq_mapQ]; cases a <;> rfl
+theorem bm_setQ (h : checkSig (.fixed [.any]) args = none) :
+    body "set?" (mapPosList g args) = mapBRes g (body "set?" args) := by
+  obtain ⟨a, rfl⟩ := shape_1 h
+  show body "set?" [mapPos g a] = _
+  rw [bodyEq_setQ, bodyEq_setQ]; cases a <;> rfl
+theorem bm_atomQ (h : checkSig (.fixed [.any]) args = none) :
+    body "atom?" (mapPosList g args) = mapBRes g (body "atom?" args) := by
+  obtain ⟨a, rfl⟩ := shape_1 h
+  show body "atom?" [mapPos g a] = _
+  rw [bodyEq_atomQ, bodyEq_atomQ]; cases a <;> rfl
+theorem bm_sequentialQ (h : checkSig (.fixed [.any]) args = none) :
+    body "sequential?" (mapPosList g args) = mapBRes g (body "sequential?" args) := by
+  obtain ⟨a, rfl⟩ := shape_1 h
+  show body "sequential?" [mapPos g a] = _
+  rw [bodyEq_sequentialQ, bodyEq_sequentialQ]; cases a <;> rfl
+theorem bm_set (h : checkSig (.fixed [.any]) args = none) :
+    body "set" (mapPosList g args) = mapBRes g (body "set" args) := by
+  obtain ⟨a, rfl⟩ := shape_1 h
+  show body "set" [mapPos g a] = _
+  rw [bodyEq_set, bodyEq_set]
+  cases a <;> try rfl
+  · exact newSet_map _ _
+  · exact newSet_map _ _
+
+theorem mapPosMap_keys (m : List (String × Val)) :
+    (mapPosMap g m).map (fun kv => Val.str kv.1) = mapPosList g (m.map (fun kv => Val.str kv.1)) := by
+  induction m with
+  | nil => rfl
+  | cons kv m ih => obtain ⟨k, v⟩ := kv; simp only [mapPosMap, List.map_cons, mapPosList, ih]; rfl
+
+theorem mapPosMap_vals (m : List (String × Val)) :
+    (mapPosMap g m).map (·.2) = mapPosList g (m.map (·.2)) := by
+  induction m with
+  | nil => rfl
+  | cons kv m ih => obtain ⟨k, v⟩ := kv; simp only [mapPosMap, List.map_cons, mapPosList, ih]
+
+include hg in
+theorem bm_keys (h : checkSig (.fixed [.any]) args = none) :
+    body "keys" (mapPosList g args) = mapBRes g (body "keys" args) := by
+  obtain ⟨a, rfl⟩ := shape_1 h
+  show body "keys" [mapPos g a] = _
+  rw [bodyEq_keys, bodyEq_keys]
+  cases a <;> try rfl
+  simp only [mapPos, mapBRes, mapPosMap_keys, hg.none]
+
+include hg in
+theorem bm_vals (h : checkSig (.fixed [.any]) args = none) :
+    body "vals" (mapPosList g args) = mapBRes g (body "vals" args) := by
+  obtain ⟨a, rfl⟩ := shape_1 h
+  show body "vals" [mapPos g a] = _
+  rw [bodyEq_vals, bodyEq_vals]
+  cases a <;> try rfl
+  simp only [mapPos, mapBRes, mapPosMap_vals, hg.none]
+
+theorem mapPosList_strs (ks : List String) : mapPosList g (ks.map Val.str) = ks.map Val.str := by
+  induction ks with
+  | nil => rfl
+  | cons k ks ih => simp only [List.map_cons, mapPosList, ih]; rfl
+
+include hg in
+theorem bm_vec (h : checkSig (.fixed [.any]) args = none) :
+    body "vec" (mapPosList g args) = mapBRes g (body "vec" args) := by
+  obtain ⟨a, rfl⟩ := shape_1 h
+  show body "vec" [mapPos g a] = _
+  rw [bodyEq_vec, bodyEq_vec]
+  cases a <;> try rfl
+  all_goals simp only [mapPos, mapBRes, mapPosList_strs, hg.none]
+
+theorem mapPosList_headD (xs : List Val) : (mapPosList g xs).headD .nil = mapPos g (xs.headD .nil) := by
+  cases xs <;> rfl
+theorem mapPosList_tail (xs : List Val) : (mapPosList g xs).tail = mapPosList g xs.tail := by
+  cases xs <;> rfl
+
+theorem bm_first (h : checkSig (.fixed [.any]) args = none) :
+    body "first" (mapPosList g args) = mapBRes g (body "first" args) := by
+  obtain ⟨a, rfl⟩ := shape_1 h
+  show body "first" [mapPos g a] = _
+  rw [bodyEq_first, bodyEq_first]
+  cases a <;> try rfl
+  all_goals simp only [mapPos, seqOf?, mapBRes, mapPosList_headD]
+
+include hg in
+theorem bm_rest (h : checkSig (.fixed [.any]) args = none) :
+    body "rest" (mapPosList g args) = mapBRes g (body "rest" args) := by
+  obtain ⟨a, rfl⟩ := shape_1 h
+  show body "rest" [mapPos g a] = _
+  rw [bodyEq_rest, bodyEq_rest]
+  cases a <;> simp only [mapPos, seqOf?, mapBRes, mapPosList_tail, hg.none, mapPosList]
+
+theorem bm_count (h : checkSig (.fixed [.any]) args = none) :
+    body "count" (mapPosList g args) = mapBRes g (body "count" args) := by
+  obtain ⟨a, rfl⟩ := shape_1 h
+  show body "count" [mapPos g a] = _
+  rw [bodyEq_count, bodyEq_count]
+  cases a <;> try rfl
+  · simp only [mapPos, mapBRes, mapPosList_length]
+  · simp only [mapPos, mapBRes, mapPosList_length]
+  · simp only [mapPos, mapBRes, mapPosMap_eq, List.length_map]
+
+theorem bm_emptyQ (h : checkSig (.fixed [.any]) args = none) :
+    body "empty?" (mapPosList g args) = mapBRes g (body "empty?" args) := by
+  obtain ⟨a, rfl⟩ := shape_1 h
+  show body "empty?" [mapPos g a] = _
+  rw [bodyEq_emptyQ, bodyEq_emptyQ]
+  cases a <;> try rfl
+  · simp only [mapPos, mapPosList_isEmpty]; rfl
+  · simp only [mapPos, mapPosList_isEmpty]; rfl
+  · rename_i m; cases m <;> rfl
+
+include hg in
+theorem bm_seq (h : checkSig (.fixed [.any]) args = none) :
+    body "seq" (mapPosList g args) = mapBRes g (body "seq" args) := by
+  obtain ⟨a, rfl⟩ := shape_1 h
+  show body "seq" [mapPos g a] = _
+  rw [bodyEq_seq, bodyEq_seq]
+  cases a <;> try rfl
+  · simp only [mapPos]
+    split
+    · rfl
+    · have : ∀ cs : List Char, mapPosList g (cs.map (fun c => Val.str (String.ofList [c]))) =
+          cs.map (fun c => Val.str (String.ofList [c])) := by
+        intro cs; induction cs with
+        | nil => rfl
+        | cons c cs ih => simp only [List.map_cons, mapPosList, ih]; rfl
+      simp only [mapBRes, mapPos, this, hg.none]
+  · simp only [mapPos, mapPosList_isEmpty]
+    split <;> simp only [mapBRes, mapPos]
+  · simp only [mapPos, mapPosList_isEmpty]
+    split <;> simp only [mapBRes, mapPos, hg.none]
+  · simp only [mapPos, mapBRes, mapPosList_strs, hg.none]
+theorem bm_eq (h : checkSig (.fixed [.any, .any]) args = none) :
+    body "=" (mapPosList g args) = mapBRes g (body "=" args) := by
+  obtain ⟨a, b, rfl, _, _⟩ := shape_2 h
+  show body "=" [mapPos g a, mapPos g b] = _
+  rw [bodyEq_eq, bodyEq_eq, equalQ_map]; rfl
+
+theorem bm_get (h : checkSig (.fixed [.any, .any]) args = none) :
+    body "get" (mapPosList g args) = mapBRes g (body "get" args) := by
+  obtain ⟨a, b, rfl, _, _⟩ := shape_2 h
+  show body "get" [mapPos g a, mapPos g b] = _
+  rw [bodyEq_get, bodyEq_get]; exact get_map a b
+
+include hg in
+theorem bm_get_in (h : checkSig (.fixed [.any, .any]) args = none) :
+    body "get-in" (mapPosList g args) = mapBRes g (body "get-in" args) := by
+  obtain ⟨a, b, rfl, -, -⟩ := shape_2 h
+  clear h
+  show body "get-in" [mapPos g a, mapPos g b] = _
+  rw [bodyEq_get_in, bodyEq_get_in]
+  have hb : ∀ a : Val, (match mapPos g b with
+       | .vec path _ => getIn (mapPos g a) path
+       | _ => .goerr "get-in index must be a vector") = mapBRes g (match b with
+       | .vec path _ => getIn a path
+       | _ => .goerr "get-in index must be a vector") := by
+    intro a
+    cases b <;> try rfl
+    exact getIn_map hg _ _
+  cases a <;> first | rfl | exact hb _
+
+include hg in
+theorem bm_cons (h : checkSig (.fixed [.any, .any]) args = none) :
+    body "cons" (mapPosList g args) = mapBRes g (body "cons" args) := by
+  obtain ⟨a, b, rfl, _, _⟩ := shape_2 h
+  show body "cons" [mapPos g a, mapPos g b] = _
+  rw [bodyEq_cons, bodyEq_cons, seqOf_map]
+  cases seqOf? b <;> simp only [Option.map_none, Option.map_some, mapBRes, mapPos, mapPosList, hg.none]
+
+theorem merge_fold_map (m acc : List (String × Val)) :
+    (mapPosMap g m).foldl (fun acc kv => ainsert kv.1 kv.2 acc) (mapPosMap g acc) =
+      mapPosMap g (m.foldl (fun acc kv => ainsert kv.1 kv.2 acc) acc) :=
+  foldl_kv_gen (mapPosMap g) _ _ (fun acc k v => ainsert_map k v acc) m acc
+
+theorem bm_merge (h : checkSig (.fixed [.any, .any]) args = none) :
+    body "merge" (mapPosList g args) = mapBRes g (body "merge" args) := by
+  obtain ⟨a, b, rfl, _, _⟩ := shape_2 h
+  show body "merge" [mapPos g a, mapPos g b] = _
+  rw [bodyEq_merge, bodyEq_merge]
+  cases a <;> cases b <;> try rfl
+  · simp only [mapPos, mapBRes]; rw [← merge_fold_map]; rfl
+  · simp only [mapPos, mapBRes]; rw [← merge_fold_map]; rfl
+  · simp only [mapPos, mapBRes]; rw [← merge_fold_map]
+
+theorem bm_containsQ (h : checkSig (.fixed [.any, .str]) args = none) :
+    body "contains?" (mapPosList g args) = mapBRes g (body "contains?" args) := by
+  obtain ⟨a, b, rfl, _, hb⟩ := shape_2 h
+  obtain ⟨k, rfl⟩ := fits_str hb
+  show body "contains?" [mapPos g a, .str k] = _
+  rw [bodyEq_containsQ, bodyEq_containsQ]
+  cases a <;> try rfl
+  simp only [mapPos, alookup_map]
+  cases alookup k ‹List (String × Val)› <;> rfl
+
+theorem bm_nth (h : checkSig (.fixed [.any, .int]) args = none) :
+    body "nth" (mapPosList g args) = mapBRes g (body "nth" args) := by
+  obtain ⟨a, b, rfl, _, hb⟩ := shape_2 h
+  obtain ⟨i, rfl⟩ := fits_int hb
+  show body "nth" [mapPos g a, .int i] = _
+  rw [bodyEq_nth, bodyEq_nth, seqOf_map]
+  cases seqOf? a with
+  | none => rfl
+  | some xs =>
+    simp only [Option.map_some, mapPosList_length, mapPosList_getD]
+    split
+    · rfl
+    · split <;> rfl
+
+include hg in
+theorem bm_take (h : checkSig (.fixed [.int, .any]) args = none) :
+    body "take" (mapPosList g args) = mapBRes g (body "take" args) := by
+  obtain ⟨a, b, rfl, ha, _⟩ := shape_2 h
+  obtain ⟨n, rfl⟩ := fits_int ha
+  show body "take" [.int n, mapPos g b] = _
+  rw [bodyEq_take, bodyEq_take]
+  cases b <;> simp only [mapPos, seqOf?, mapBRes, mapPosList_take, hg.none, mapPosList]
+
+include hg in
+theorem bm_drop (h : checkSig (.fixed [.int, .any]) args = none) :
+    body "drop" (mapPosList g args) = mapBRes g (body "drop" args) := by
+  obtain ⟨a, b, rfl, ha, _⟩ := shape_2 h
+  obtain ⟨n, rfl⟩ := fits_int ha
+  show body "drop" [.int n, mapPos g b] = _
+  rw [bodyEq_drop, bodyEq_drop]
+  cases b <;> simp only [mapPos, seqOf?, mapBRes, mapPosList_drop, hg.none, mapPosList]
+
+include hg in
+theorem bm_drop_last (h : checkSig (.fixed [.int, .any]) args = none) :
+    body "drop-last" (mapPosList g args) = mapBRes g (body "drop-last" args) := by
+  obtain ⟨a, b, rfl, ha, _⟩ := shape_2 h
+  obtain ⟨n, rfl⟩ := fits_int ha
+  show body "drop-last" [.int n, mapPos g b] = _
+  rw [bodyEq_drop_last, bodyEq_drop_last]
+  cases b <;> simp only [mapPos, seqOf?, mapBRes, mapPosList_take, mapPosList_length, hg.none, mapPosList]
+
+include hg in
+theorem bm_take_last (h : checkSig (.fixed [.int, .any]) args = none) :
+    body "take-last" (mapPosList g args) = mapBRes g (body "take-last" args) := by
+  obtain ⟨a, b, rfl, ha, _⟩ := shape_2 h
+  obtain ⟨n, rfl⟩ := fits_int ha
+  show body "take-last" [.int n, mapPos g b] = _
+  rw [bodyEq_take_last, bodyEq_take_last]
+  cases b <;> simp only [mapPos, seqOf?, mapBRes] <;>
+    (simp only [mapPosList_drop, mapPosList_length, mapPosList_isEmpty]; split <;> simp only [mapBRes, mapPos, hg.none])
+
+theorem bm_rename_keys (h : checkSig (.fixed [.map, .map]) args = none) :
+    body "rename-keys" (mapPosList g args) = mapBRes g (body "rename-keys" args) := by
+  obtain ⟨a, b, rfl, ha, hb⟩ := shape_2 h
+  obtain ⟨d, rfl⟩ := fits_map' ha
+  obtain ⟨alt, rfl⟩ := fits_map' hb
+  show body "rename-keys" [.map (mapPosMap g d), .map (mapPosMap g alt)] = _
+  rw [bodyEq_rename_keys, bodyEq_rename_keys]; exact renameKeys_map d alt
+
+include hg in
+theorem bm_assoc_in (h : checkSig (.fixed [.any, .vec, .any]) args = none) :
+    body "assoc-in" (mapPosList g args) = mapBRes g (body "assoc-in" args) := by
+  obtain ⟨a, b, c, rfl, _, hb, _⟩ := shape_3 h
+  obtain ⟨path, p, rfl⟩ := fits_vec hb
+  show body "assoc-in" [mapPos g a, .vec (mapPosList g path) (g p), mapPos g c] = _
+  rw [bodyEq_assoc_in, bodyEq_assoc_in]; exact assocIn_map hg path a c
+
+include hg in
+theorem bm_symbol (h : checkSig (.fixed [.str]) args = none) :
+    body "symbol" (mapPosList g args) = mapBRes g (body "symbol" args) := by
+  obtain ⟨hl, hf⟩ := fixed_len h
+  match args, hl, hf with
+  | [a], _, hf =>
+    simp at hf
+    obtain ⟨s, rfl⟩ := fits_str hf
+    show body "symbol" [.str s] = _
+    rw [bodyEq_symbol]; simp only [mapBRes, mapPos, hg.none]
+
+theorem bm_keyword (h : checkSig (.fixed [.str]) args = none) :
+    body "keyword" (mapPosList g args) = mapBRes g (body "keyword" args) := by
+  obtain ⟨hl, hf⟩ := fixed_len h
+  match args, hl, hf with
+  | [a], _, hf =>
+    simp at hf
+    obtain ⟨s, rfl⟩ := fits_str hf
+    show body "keyword" [.str s] = _
+    rw [bodyEq_keyword]; split <;> rfl
+include hg in
+theorem bm_list : body "list" (mapPosList g args) = mapBRes g (body "list" args) := by
+  rw [bodyEq_list, bodyEq_list]; simp only [mapBRes, mapPos, hg.none]
+
+include hg in
+theorem bm_vector : body "vector" (mapPosList g args) = mapBRes g (body "vector" args) := by
+  rw [bodyEq_vector, bodyEq_vector]; simp only [mapBRes, mapPos, hg.none]
+
+theorem bm_hash_map : body "hash-map" (mapPosList g args) = mapBRes g (body "hash-map" args) := by
+  rw [bodyEq_hash_map, bodyEq_hash_map]
+  match args with
+  | [] => rfl
+  | [_] => rfl
+  | a :: b :: r => exact newHashMap_map (a :: b :: r)
+
+theorem bm_hash_set : body "hash-set" (mapPosList g args) = mapBRes g (body "hash-set" args) := by
+  rw [bodyEq_hash_set, bodyEq_hash_set]; exact newSet_map _ _
+
+include hg in
+theorem bm_assoc : body "assoc" (mapPosList g args) = mapBRes g (body "assoc" args) := by
+  rw [bodyEq_assoc, bodyEq_assoc]; exact assoc_map hg _
+
+theorem bm_dissoc : body "dissoc" (mapPosList g args) = mapBRes g (body "dissoc" args) := by
+  rw [bodyEq_dissoc, bodyEq_dissoc]; exact dissoc_map _
+
+theorem all_seq_map (xs : List Val) :
+    (mapPosList g xs).all (fun x => (seqOf? x).isSome) = xs.all (fun x => (seqOf? x).isSome) := by
+  induction xs with
+  | nil => rfl
+  | cons x xs ih => simp only [mapPosList, List.all_cons, seqOf_map, Option.isSome_map, ih]
+
+theorem flatMap_seq_map (xs : List Val) :
+    (mapPosList g xs).flatMap (fun x => (seqOf? x).getD []) =
+      mapPosList g (xs.flatMap (fun x => (seqOf? x).getD [])) := by
+  induction xs with
+  | nil => rfl
+  | cons x xs ih =>
+    simp only [mapPosList, List.flatMap_cons, seqOf_map, ih, mapPosList_append]
+    cases seqOf? x <;> rfl
+
+include hg in
+theorem bm_concat : body "concat" (mapPosList g args) = mapBRes g (body "concat" args) := by
+  rw [bodyEq_concat, bodyEq_concat]
+  cases args with
+  | nil => simp only [mapPosList, mapBRes, mapPos, hg.none]
+  | cons a r =>
+    rw [mapPosList]
+    dsimp only
+    rw [← mapPosList_cons, all_seq_map, flatMap_seq_map]
+    by_cases hc : ((a :: r).all fun x => (seqOf? x).isSome) = true
+    · rw [if_pos hc, if_pos hc]; simp only [mapBRes, mapPos, hg.none]
+    · rw [if_neg hc, if_neg hc]; rfl
+
+theorem bm_str : body "str" (mapPosList g args) = mapBRes g (body "str" args) := by
+  rw [bodyEq_str, bodyEq_str, corePrList_map]; rfl
+
+theorem bm_pr_str : body "pr-str" (mapPosList g args) = mapBRes g (body "pr-str" args) := by
+  rw [bodyEq_pr_str, bodyEq_pr_str, corePrList_map]; rfl
+
+include hg in
+theorem bm_conj : body "conj" (mapPosList g args) = mapBRes g (body "conj" args) := by
+  cases args with
+  | nil => rfl
+  | cons s xs =>
+    rw [mapPosList, bodyEq_conj, bodyEq_conj]
+    cases s <;> try rfl
+    · simp [mapPos, mapBRes, hg.none, mapPosList_eq]
+    · simp only [mapPos, mapBRes, hg.none, mapPosList_append]
+    · simp only [mapPos, mapPosList_length]
+      split
+      · rfl
+      · exact conjMap_map _ _
+    · exact addKeys_map _ _ _
+
+include hg in
+theorem bm_subvec : body "subvec" (mapPosList g args) = mapBRes g (body "subvec" args) := by
+  cases args with
+  | nil => rfl
+  | cons v idx =>
+    rw [mapPosList, bodyEq_subvec, bodyEq_subvec]
+    cases v <;> try rfl
+    rename_i xs p
+    simp only [mapPos]
+    match idx with
+    | [] => rfl
+    | [a] =>
+      cases a <;> try rfl
+      simp only [mapPosList, mapPos, mapPosList_length, mapPosList_drop]
+      split <;> simp only [mapBRes, mapPos, hg.none]
+    | [a, b] =>
+      cases a <;> try rfl
+      cases b <;> try rfl
+      simp only [mapPosList, mapPos, mapPosList_length, mapPosList_drop, mapPosList_take]
+      split <;> simp only [mapBRes, mapPos, hg.none]
+    | a :: b :: c :: r =>
+      cases a <;> try rfl
+      cases b <;> rfl
+
+theorem bm_assert : body "assert" (mapPosList g args) = mapBRes g (body "assert" args) := by
+  cases args with
+  | nil => rfl
+  | cons a0 r =>
+    rw [mapPosList, bodyEq_assert, bodyEq_assert]
+    have hr : ∀ msg : String, (match mapPosList g r with
+        | [] | [.nil] => BRes.goerr msg
+        | [.str s] => .goerr s
+        | [v] => .thrown v
+        | _ => .goerr "one or two parameters required") = mapBRes g (match r with
+        | [] | [.nil] => BRes.goerr msg
+        | [.str s] => .goerr s
+        | [v] => .thrown v
+        | _ => .goerr "one or two parameters required") := by
+      intro msg
+      match r with
+      | [] => rfl
+      | [v] => cases v <;> rfl
+      | a :: _ :: _ => cases a <;> rfl
+    cases a0 <;> try rfl
+    · exact hr _
+    · rename_i b; cases b
+      · exact hr _
+      · rfl
+include hg in
+theorem body_map {name : String} {s : Sig} (hs : sigOf name = some s) (hc : checkSig s args = none) :
+    body name (mapPosList g args) = mapBRes g (body name args) := by
+  have hm := sigOf_mem hs
+  simp only [pureNames, List.mem_cons, List.not_mem_nil, or_false] at hm
+  rcases hm with rfl | rfl | rfl | rfl | rfl | rfl | rfl | rfl | rfl | rfl | rfl | rfl | rfl | rfl | rfl | rfl | rfl | rfl | rfl | rfl | rfl | rfl | rfl | rfl | rfl | rfl | rfl | rfl | rfl | rfl | rfl | rfl | rfl | rfl | rfl | rfl | rfl | rfl | rfl | rfl | rfl | rfl | rfl | rfl | rfl | rfl | rfl | rfl | rfl | rfl | rfl | rfl | rfl | rfl | rfl | rfl | rfl | rfl | rfl | rfl | rfl | rfl
+  · cases hs; exact bm_add hc
+  · cases hs; exact bm_sub hc
+  · cases hs; exact bm_mul hc
+  · cases hs; exact bm_div hc
+  · cases hs; exact bm_lt hc
+  · cases hs; exact bm_le hc
+  · cases hs; exact bm_gt hc
+  · cases hs; exact bm_ge hc
+  · cases hs; exact bm_eq hc
+  · cases hs; exact bm_throw hc
+  · exact bm_list hg
+  · exact bm_vector hg
+  · exact bm_hash_map
+  · exact bm_hash_set
+  · cases hs; exact bm_set hc
+  · exact bm_assoc hg
+  · exact bm_dissoc
+  · cases hs; exact bm_get hc
+  · cases hs; exact bm_get_in hg hc
+  · cases hs; exact bm_assoc_in hg hc
+  · cases hs; exact bm_containsQ hc
+  · cases hs; exact bm_keys hg hc
+  · cases hs; exact bm_vals hg hc
+  · cases hs; exact bm_merge hc
+  · cases hs; exact bm_rename_keys hc
+  · cases hs; exact bm_cons hg hc
+  · exact bm_concat hg
+  · cases hs; exact bm_vec hg hc
+  · cases hs; exact bm_nth hc
+  · cases hs; exact bm_first hc
+  · cases hs; exact bm_rest hg hc
+  · cases hs; exact bm_count hc
+  · cases hs; exact bm_emptyQ hc
+  · exact bm_conj hg
+  · cases hs; exact bm_seq hg hc
+  · cases hs; exact bm_take hg hc
+  · cases hs; exact bm_take_last hg hc
+  · cases hs; exact bm_drop hg hc
+  · cases hs; exact bm_drop_last hg hc
+  · exact bm_subvec hg
+  · cases hs; exact bm_range hg hc
+  · cases hs; exact bm_symbol hg hc
+  · cases hs; exact bm_keyword hc
+  · exact bm_str
+  · exact bm_pr_str
+  · cases hs; exact bm_typeQ hc
+  · cases hs; exact bm_nilQ hc
+  · cases hs; exact bm_trueQ hc
+  · cases hs; exact bm_falseQ hc
+  · cases hs; exact bm_symbolQ hc
+  · cases hs; exact bm_keywordQ hc
+  · cases hs; exact bm_stringQ hc
+  · cases hs; exact bm_numberQ hc
+  · cases hs; exact bm_fnQ hc
+  · cases hs; exact bm_macroQ hc
+  · cases hs; exact bm_listQ hc
+  · cases hs; exact bm_vectorQ hc
+  · cases hs; exact bm_mapQ hc
+  · cases hs; exact bm_setQ hc
+  · cases hs; exact bm_atomQ hc
+  · cases hs; exact bm_sequentialQ hc
+  · exact bm_assert
+
+include hg in
+/-- a pure builtin never inspects a cursor and creates none -/
+theorem call_map (name : String) (args : List Val) :
+    Core.call name (mapPosList g args) = (Core.call name args).map (mapBRes g) := by
+  unfold Core.call
+  cases hs : sigOf name with
+  | none => rfl
+  | some s =>
+    simp only [checkSig_map]
+    cases hc : checkSig s args with
+    | some msg => simp only []; split <;> rfl
+    | none => simp only [Option.map_some, body_map hg hs hc]
+end bm
+
+set_option linter.unusedSimpArgs false
+
+/-! ### the commutation theorem -/
+
+/-- the induction predicate: at fuel `F`, all 13 functions commute with the cursor map `g` -/
+structure Comm (g : Option Pos → Option Pos) (F : Nat) : Prop where
+  eval : ∀ st env ast d, eval F (mapSt g st) env (mapPos g ast) d = mapR g (eval F st env ast d)
+  evalLoop : ∀ st env ast d, evalLoop F (mapSt g st) env (mapPos g ast) d = mapR g (evalLoop F st env ast d)
+  evalAst : ∀ st env ast d, evalAst F (mapSt g st) env (mapPos g ast) d = mapR g (evalAst F st env ast d)
+  evalList : ∀ st env xs d, evalList F (mapSt g st) env (mapPosList g xs) d = mapRL g (evalList F st env xs d)
+  evalMap : ∀ st env kvs d, evalMap F (mapSt g st) env (mapPosMap g kvs) d = mapRM g (evalMap F st env kvs d)
+  doForms : ∀ st env lst fr kl d,
+    doForms F (mapSt g st) env (mapPosList g lst) fr kl d = mapR g (doForms F st env lst fr kl d)
+  letBinds : ∀ st env bs a1 d,
+    letBinds F (mapSt g st) env (mapPosList g bs) (mapPos g a1) d = mapR g (letBinds F st env bs a1 d)
+  macroexpand : ∀ st env ast d,
+    macroexpand F (mapSt g st) env (mapPos g ast) d = mapR g (macroexpand F st env ast d)
+  apply : ∀ st f args d,
+    apply F (mapSt g st) (mapPos g f) (mapPosList g args) d = mapR g (apply F st f args d)
+  mapLoop : ∀ st f xs d,
+    mapLoop F (mapSt g st) (mapPos g f) (mapPosList g xs) d = mapRL g (mapLoop F st f xs d)
+  updateIn : ∀ st v p f d,
+    updateIn F (mapSt g st) (mapPos g v) (mapPosList g p) (mapPos g f) d = mapR g (updateIn F st v p f d)
+  update1 : ∀ st v i f d,
+    update1 F (mapSt g st) (mapPos g v) (mapPos g i) (mapPos g f) d = mapR g (update1 F st v i f d)
+  callBuiltin : ∀ st n args d,
+    callBuiltin F (mapSt g st) n (mapPosList g args) d = mapR g (callBuiltin F st n args d)
+
+section steps
+variable {g : Option Pos → Option Pos} (hg : PosMap g) {F : Nat} (ih : Comm g F)
+
+include ih in
+theorem evalList_comm (st : State) (env : Nat) (xs : List Val) (d : Nat) :
+    evalList (F+1) (mapSt g st) env (mapPosList g xs) d = mapRL g (evalList (F+1) st env xs d) := by
+  cases xs with
+  | nil => rw [mapPosList, evalList.eq_2, evalList.eq_2]; rfl
+  | cons x xs =>
+    rw [mapPosList, evalList.eq_3, evalList.eq_3, ih.eval]
+    rcases eval F st env x (d+1) with ⟨r, s1⟩
+    cases r with
+    | ok v =>
+      simp only [mapR, mapRes]
+      rw [ih.evalList]
+      rcases evalList F s1 env xs d with ⟨r2, s2⟩
+      cases r2 <;> rfl
+    | err e => rfl
+    | oof => rfl
+
+include ih in
+theorem evalMap_comm (st : State) (env : Nat) (kvs : List (String × Val)) (d : Nat) :
+    evalMap (F+1) (mapSt g st) env (mapPosMap g kvs) d = mapRM g (evalMap (F+1) st env kvs d) := by
+  cases kvs with
+  | nil => rw [mapPosMap, evalMap.eq_2, evalMap.eq_2]; rfl
+  | cons kv kvs =>
+    obtain ⟨k, x⟩ := kv
+    rw [mapPosMap, evalMap.eq_3, evalMap.eq_3, ih.eval]
+    rcases eval F st env x (d+1) with ⟨r, s1⟩
+    cases r with
+    | ok v =>
+      simp only [mapR, mapRes]
+      rw [ih.evalMap]
+      rcases evalMap F s1 env kvs d with ⟨r2, s2⟩
+      cases r2 with
+      | ok m => simp only [mapRM, mapRes, ainsert_map]
+      | err e => rfl
+      | oof => rfl
+    | err e => rfl
+    | oof => rfl
+
+include hg ih in
+theorem evalAst_comm (st : State) (env : Nat) (ast : Val) (d : Nat) :
+    evalAst (F+1) (mapSt g st) env (mapPos g ast) d = mapR g (evalAst (F+1) st env ast d) := by
+  cases ast with
+  | sym s p =>
+    simp only [mapPos, evalAst, mapSt_get]
+    cases st.get env s with
+    | some v => rfl
+    | none => simp only [Option.map_none, mapR, mapRes, mapErr, mapPos, getPosition]
+  | list xs p =>
+    simp only [mapPos, evalAst, ih.evalList]
+    rcases evalList F st env xs d with ⟨r, s1⟩
+    cases r <;> simp only [mapRL, mapR, mapRes, mapPos, hg.none]
+  | vec xs p =>
+    simp only [mapPos, evalAst, ih.evalList]
+    rcases evalList F st env xs d with ⟨r, s1⟩
+    cases r <;> simp only [mapRL, mapR, mapRes, mapPos, hg.none]
+  | map kvs =>
+    simp only [mapPos, evalAst, ih.evalMap]
+    rcases evalMap F st env kvs d with ⟨r, s1⟩
+    cases r <;> simp only [mapRM, mapR, mapRes, mapPos]
+  | _ => simp only [mapPos, evalAst, mapR, mapRes]
+
+/-- the deferred flag update of `do()` -/
+def doFin (had : Bool) (r : R) : R :=
+  if had then
+    match r.2.stepper with
+    | some sp => (r.1, { r.2 with stepper := some { sp with skip := true, outing1 := false, outing2 := true } })
+    | none => r
+  else r
+
+def hadOuting1 (st : State) : Bool := match st.stepper with | some sp => sp.outing1 | none => false
+
+theorem doForms_eq (F : Nat) (st : State) (env : Nat) (lst : List Val) (fr : Nat) (kl : Bool) (d : Nat) :
+    doForms (F+1) st env lst fr kl d =
+      doFin (hadOuting1 st)
+        (if lst.length ≤ fr then (.ok .nil, st)
+         else match evalList F st env (if kl then (lst.drop fr).dropLast else lst.drop fr) d with
+           | (.ok vs, st) => if kl then (.ok (lst.getLast?.getD .nil), st) else (.ok (vs.getLast?.getD .nil), st)
+           | (.err e, st) => (.err e, st)
+           | (.oof, st) => (.oof, st)) := by
+  rw [doForms.eq_2]
+  simp only [doFin, hadOuting1]
+  split
+  · rfl
+  · rcases evalList F st env (if kl then (lst.drop fr).dropLast else lst.drop fr) d with ⟨r, s1⟩
+    cases r with
+    | ok vs => simp only []; split <;> rfl
+    | err e => rfl
+    | oof => rfl
+
+theorem hadOuting1_map (st : State) : hadOuting1 (mapSt g st) = hadOuting1 st := by
+  unfold hadOuting1; rw [mapSt_stepper]; cases st.stepper <;> rfl
+
+theorem doFin_map (b : Bool) (r : R) : doFin b (mapR g r) = mapR g (doFin b r) := by
+  obtain ⟨r1, s1⟩ := r
+  unfold doFin
+  cases b with
+  | false => rfl
+  | true =>
+    simp only [if_true, mapR, mapSt_stepper]
+    cases h : s1.stepper with
+    | none => simp only [Option.map_none, mapR, h]
+    | some sp => simp only [Option.map_some, mapR, mapSt, mapStepper, h]
+
+include ih in
+theorem doForms_comm (st : State) (env : Nat) (lst : List Val) (fr : Nat) (kl : Bool) (d : Nat) :
+    doForms (F+1) (mapSt g st) env (mapPosList g lst) fr kl d = mapR g (doForms (F+1) st env lst fr kl d) := by
+  rw [doForms_eq, doForms_eq, hadOuting1_map, ← doFin_map]
+  congr 1
+  rw [mapPosList_length]
+  split
+  · rfl
+  · have e : (if kl then ((mapPosList g lst).drop fr).dropLast else (mapPosList g lst).drop fr) =
+        mapPosList g (if kl then (lst.drop fr).dropLast else lst.drop fr) := by
+      split
+      · rw [mapPosList_drop, mapPosList_dropLast]
+      · rw [mapPosList_drop]
+    rw [e, ih.evalList]
+    rcases evalList F st env (if kl then (lst.drop fr).dropLast else lst.drop fr) d with ⟨r, s1⟩
+    cases r with
+    | ok vs =>
+      simp only [mapRL, mapRes]
+      split
+      · simp only [mapR, mapRes, mapPosList_getLastD]
+      · simp only [mapR, mapRes, mapPosList_getLastD]
+    | err e => rfl
+    | oof => rfl
+
+include hg ih in
+theorem letBinds_comm (st : State) (env : Nat) (bs : List Val) (a1 : Val) (d : Nat) :
+    letBinds (F+1) (mapSt g st) env (mapPosList g bs) (mapPos g a1) d =
+      mapR g (letBinds (F+1) st env bs a1 d) := by
+  match bs with
+  | [] => rw [mapPosList, letBinds.eq_2, letBinds.eq_2]; rfl
+  | [_] => rw [mapPosList, mapPosList, letBinds.eq_3, letBinds.eq_3]; rfl
+  | b :: x :: rest =>
+    rw [mapPosList, mapPosList]
+    unfold letBinds
+    cases b with
+    | sym name p =>
+      simp only [mapPos, ih.eval]
+      rcases eval F st env x (d+1) with ⟨r, s1⟩
+      cases r with
+      | ok v => simp only [mapR, mapRes, mapSt_set, ih.letBinds]
+      | err e => rfl
+      | oof => rfl
+    | _ =>
+      simp only [mapPos, mapR, mapRes]
+      first
+        | (rw [← newLispError_map hg]; rfl)
+        | rfl
+
+theorem mapBind_ok {r : Except Err (List (String × Val))} {data : List (String × Val)}
+    (h : r = .ok data) : mapBind g r = .ok (mapPosMap g data) := by subst h; rfl
+theorem mapBind_err {r : Except Err (List (String × Val))} {e : Err}
+    (h : r = .error e) : mapBind g r = .error (mapErr g e) := by subst h; rfl
+
+include hg ih in
+theorem apply_comm (st : State) (f : Val) (args : List Val) (d : Nat) :
+    apply (F+1) (mapSt g st) (mapPos g f) (mapPosList g args) d = mapR g (apply (F+1) st f args d) := by
+  unfold apply
+  cases f with
+  | fn params body fenv m p =>
+    simp only [mapPos, bindParams_map hg]
+    cases hb : bindParams params args with
+    | error e => simp only [mapBind, mapR, mapRes]
+    | ok data =>
+      simp only [mapBind, mapSt_newScope, ih.eval]
+  | builtin name => simp only [mapPos, ih.callBuiltin]
+  | _ => simp only [mapPos, mapR, mapRes, mapErr]
+
+include ih in
+theorem mapLoop_comm (st : State) (f : Val) (xs : List Val) (d : Nat) :
+    mapLoop (F+1) (mapSt g st) (mapPos g f) (mapPosList g xs) d = mapRL g (mapLoop (F+1) st f xs d) := by
+  cases xs with
+  | nil => rw [mapPosList, mapLoop.eq_2, mapLoop.eq_2]; rfl
+  | cons x xs =>
+    rw [mapPosList, mapLoop.eq_3, mapLoop.eq_3]
+    have := ih.apply st f [x] d
+    simp only [mapPosList] at this
+    rw [this]
+    rcases apply F st f [x] d with ⟨r, s1⟩
+    cases r with
+    | ok v =>
+      simp only [mapR, mapRes]
+      rw [ih.mapLoop]
+      rcases mapLoop F s1 f xs d with ⟨r2, s2⟩
+      cases r2 <;> rfl
+    | err e => rfl
+    | oof => rfl
+
+include hg ih in
+theorem macroexpand_comm (st : State) (env : Nat) (ast : Val) (d : Nat) :
+    macroexpand (F+1) (mapSt g st) env (mapPos g ast) d = mapR g (macroexpand (F+1) st env ast d) := by
+  by_cases hs : ∃ s p args q, ast = .list (.sym s p :: args) q
+  · obtain ⟨s, p, args, q, rfl⟩ := hs
+    simp only [mapPos, mapPosList]
+    rw [macroexpand.eq_2, macroexpand.eq_2]
+    simp only [mapSt_get]
+    cases st.get env s with
+    | none => simp only [Option.map_none, mapR, mapRes, mapPos, mapPosList]
+    | some v =>
+      cases v with
+      | fn params body fenv m fp =>
+        cases m with
+        | false => simp only [Option.map_some, mapPos, mapR, mapRes, mapPosList]
+        | true =>
+          simp only [Option.map_some, mapPos, bindParams_map hg]
+          cases hb : bindParams params args with
+          | error e => simp only [mapBind, mapR, mapRes]
+          | ok data =>
+            simp only [mapBind, mapSt_newScope, ih.eval]
+            rcases eval F (st.newScope fenv data).1 (st.newScope fenv data).2 body (d+1) with ⟨r, s1⟩
+            cases r with
+            | ok ast' => simp only [mapR, mapRes, ih.macroexpand]
+            | err e => rfl
+            | oof => rfl
+      | _ => simp only [Option.map_some, mapPos, mapR, mapRes, mapPosList]
+  · have h1 : ∀ s p args q, ast = .list (.sym s p :: args) q → False := fun s p args q h => hs ⟨s, p, args, q, h⟩
+    have h2 : ∀ s p args q, mapPos g ast = .list (.sym s p :: args) q → False := by
+      intro s p args q h
+      obtain ⟨xs, p', rfl, hx⟩ := mapPos_eq_list h
+      obtain ⟨x, xs', rfl, hx1, _⟩ := mapPosList_eq_cons hx
+      obtain ⟨p'', rfl⟩ := mapPos_eq_sym hx1
+      exact h1 _ _ _ _ rfl
+    rw [macroexpand.eq_3 _ _ _ _ _ h2, macroexpand.eq_3 _ _ _ _ _ h1]
+    rfl
+
+/-- the current value `_update` reads -/
+def curOf (v i : Val) : Option Val :=
+  match v, i with
+  | .map m, .str k => some ((alookup k m).getD .nil)
+  | .vec xs _, .int n => if 0 ≤ n ∧ n.toNat < xs.length then some (xs.getD n.toNat .nil) else none
+  | _, _ => none
+
+/-- how `_update` / `_updateIn` turn the outcome of `assoc` into a result -/
+def assocRes (b : BRes) (st : State) : R :=
+  match b with
+  | .ok r => (.ok r, st)
+  | .thrown t => (.err (.lisp t none), st)
+  | .goerr m => (.err (.lisp (.goerr m) none), st)
+
+include hg in
+theorem assocRes_map (b : BRes) (st : State) :
+    assocRes (mapBRes g b) (mapSt g st) = mapR g (assocRes b st) := by
+  cases b <;> simp only [assocRes, mapBRes, mapR, mapRes, mapErr, mapPos, hg.none]
+
+theorem update1_eq (F : Nat) (st : State) (v i f : Val) (d : Nat) :
+    update1 (F+1) st v i f d =
+      match v with
+      | .map _ | .vec _ _ =>
+        (match curOf v i with
+         | none => (.err (.lisp (.goerr "interface conversion or index out of range") none), st)
+         | some c =>
+           match apply F st f [c] d with
+           | (.ok res, st) => assocRes (Core.assoc [v, i, res]) st
+           | r => r)
+      | _ => (.err (.lisp (.goerr "expected vector or hash-map") none), st) := by
+  unfold update1
+  cases v <;> try rfl
+  all_goals
+    simp only [curOf]
+    split
+    · rfl
+    · rcases apply F st f [_] d with ⟨r, s1⟩
+      cases r with
+      | ok res => simp only [assocRes]; cases Core.assoc _ <;> rfl
+      | err e => rfl
+      | oof => rfl
+
+theorem curOf_map (v i : Val) : curOf (mapPos g v) (mapPos g i) = (curOf v i).map (mapPos g) := by
+  cases v with
+  | map m =>
+    cases i <;> simp only [mapPos, curOf] <;> try rfl
+    rw [alookup_map]; cases alookup _ m <;> rfl
+  | vec xs p =>
+    cases i <;> simp only [mapPos, curOf, mapPosList_length] <;> try rfl
+    split
+    · rw [mapPosList_getD]; rfl
+    · rfl
+  | _ => cases i <;> rfl
+
+include hg ih in
+theorem update1_comm (st : State) (v i f : Val) (d : Nat) :
+    update1 (F+1) (mapSt g st) (mapPos g v) (mapPos g i) (mapPos g f) d =
+      mapR g (update1 (F+1) st v i f d) := by
+  rw [update1_eq, update1_eq, curOf_map]
+  have main : (match (curOf v i).map (mapPos g) with
+      | none => ((.err (.lisp (.goerr "interface conversion or index out of range") none), mapSt g st) : R)
+      | some c =>
+        match apply F (mapSt g st) (mapPos g f) [c] d with
+        | (.ok res, st) => assocRes (Core.assoc [mapPos g v, mapPos g i, res]) st
+        | r => r) = mapR g (match curOf v i with
+      | none => (.err (.lisp (.goerr "interface conversion or index out of range") none), st)
+      | some c =>
+        match apply F st f [c] d with
+        | (.ok res, st) => assocRes (Core.assoc [v, i, res]) st
+        | r => r) := by
+    cases curOf v i with
+    | none => simp only [Option.map_none, mapR, mapRes, mapErr, mapPos, hg.none]
+    | some c =>
+      have := ih.apply st f [c] d
+      simp only [mapPosList] at this
+      simp only [Option.map_some, this]
+      rcases apply F st f [c] d with ⟨r, s1⟩
+      cases r with
+      | ok res =>
+        simp only [mapR, mapRes]
+        have ha := assoc_map hg [v, i, res]
+        simp only [mapPosList] at ha
+        rw [ha, assocRes_map hg]; rfl
+      | err e => rfl
+      | oof => rfl
+  cases v <;> first
+    | exact main
+    | simp only [mapPos, mapR, mapRes, mapErr, hg.none]
+
+/-- the `branch` of `_updateIn` -/
+def updBranch (v i : Val) : Option Val :=
+  match v, i with
+  | .map m, .str k => some (match (alookup k m).getD .nil with | .nil => .map [] | b => b)
+  | .vec xs _, .int n => if 0 ≤ n ∧ n.toNat < xs.length then some (match xs.getD n.toNat .nil with | .nil => .vec [] none | b => b) else none
+  | _, _ => none
+
+def sameKind (v b : Val) : Bool :=
+  match v, b with | .map _, .map _ => true | .vec _ _, .vec _ _ => true | _, _ => false
+
+theorem updateIn_eq3 (F : Nat) (st : State) (v i j : Val) (rest : List Val) (f : Val) (d : Nat) :
+    updateIn (F+1) st v (i :: j :: rest) f d =
+      match updBranch v i with
+      | none => (.err (.lisp (.goerr "update-in: type not supported / conversion") none), st)
+      | some b =>
+        if !sameKind v b then (.err (.lisp (.goerr "interface conversion") none), st) else
+        match updateIn F st b (j :: rest) f d with
+        | (.ok inner, st) => assocRes (Core.assoc [v, i, inner]) st
+        | r => r := by
+  conv => lhs; unfold updateIn
+  rfl
+
+include hg in
+theorem updBranch_map (v i : Val) : updBranch (mapPos g v) (mapPos g i) = (updBranch v i).map (mapPos g) := by
+  cases v with
+  | map m =>
+    cases i <;> simp only [mapPos, updBranch] <;> try rfl
+    rw [alookup_map]
+    cases alookup _ m with
+    | none => rfl
+    | some w => cases w <;> rfl
+  | vec xs p =>
+    cases i <;> simp only [mapPos, updBranch, mapPosList_length] <;> try rfl
+    split
+    · rw [mapPosList_getD]
+      cases xs.getD _ .nil <;> simp [mapPos, hg.none]
+    · rfl
+  | _ => cases i <;> rfl
+
+theorem sameKind_map (v b : Val) : sameKind (mapPos g v) (mapPos g b) = sameKind v b := by
+  cases v <;> cases b <;> rfl
+
+include hg ih in
+theorem updateIn_comm (st : State) (v : Val) (p : List Val) (f : Val) (d : Nat) :
+    updateIn (F+1) (mapSt g st) (mapPos g v) (mapPosList g p) (mapPos g f) d =
+      mapR g (updateIn (F+1) st v p f d) := by
+  match p with
+  | [] => rw [mapPosList, updateIn.eq_2, updateIn.eq_2]; rfl
+  | [i] => rw [mapPosList, mapPosList, updateIn.eq_3, updateIn.eq_3]; exact ih.update1 st v i f d
+  | i :: j :: rest =>
+    rw [mapPosList, mapPosList, updateIn_eq3, updateIn_eq3, updBranch_map hg]
+    cases updBranch v i with
+    | none => simp only [Option.map_none, mapR, mapRes, mapErr, mapPos, hg.none]
+    | some b =>
+      simp only [Option.map_some, sameKind_map]
+      split
+      · simp only [mapR, mapRes, mapErr, mapPos, hg.none]
+      · have := ih.updateIn st b (j :: rest) f d
+        simp only [mapPosList] at this
+        rw [this]
+        rcases updateIn F st b (j :: rest) f d with ⟨r, s1⟩
+        cases r with
+        | ok res =>
+          simp only [mapR, mapRes]
+          have ha := assoc_map hg [v, i, res]
+          simp only [mapPosList] at ha
+          rw [ha, assocRes_map hg]; rfl
+        | err e => rfl
+        | oof => rfl
+
+include hg ih in
+theorem callBuiltin_comm (st : State) (name : String) (args : List Val) (d : Nat) :
+    callBuiltin (F+1) (mapSt g st) name (mapPosList g args) d =
+      mapR g (callBuiltin (F+1) st name args d) := by
+  unfold callBuiltin
+  have hgo : ∀ m : String, ((.err (.lisp (.goerr m) none), mapSt g st) : R) =
+      mapR g (.err (.lisp (.goerr m) none), st) := by
+    intro m; simp only [mapR, mapRes, mapErr, mapPos, hg.none]
+  by_cases hn : name = "trace!"
+  · simp only [hn, ↓reduceIte]
+    match args with
+    | [] => exact hgo _
+    | [v] => rfl
+    | _ :: _ :: _ => exact hgo _
+  simp only [hn, ↓reduceIte]; clear hn
+  by_cases hn : name = "depth!"
+  · simp only [hn, ↓reduceIte]
+    match args with
+    | [] => rfl
+    | _ :: _ => exact hgo _
+  simp only [hn, ↓reduceIte]; clear hn
+  by_cases hn : name = "eval"
+  · simp only [hn, ↓reduceIte]
+    match args with
+    | [] => rfl
+    | [a] => exact ih.eval st 0 a (d+1)
+    | _ :: _ :: _ => rfl
+  simp only [hn, ↓reduceIte]; clear hn
+  by_cases hn : name = "apply"
+  · simp only [hn, ↓reduceIte]
+    match args with
+    | [] => exact hgo _
+    | f :: rest =>
+      simp only [mapPosList, mapPosList_getLast?]
+      cases hl : rest.getLast? with
+      | none => exact hgo _
+      | some last =>
+        simp only [Option.map_some, seqOf_map]
+        cases seqOf? last with
+        | none => exact hgo _
+        | some tail =>
+          simp only [Option.map_some, mapPosList_dropLast, ← mapPosList_append]
+          exact ih.apply st f _ d
+  simp only [hn, ↓reduceIte]; clear hn
+  by_cases hn : name = "map"
+  · simp only [hn, ↓reduceIte]
+    match args with
+    | [] => exact hgo _
+    | [_] => exact hgo _
+    | [f, s] =>
+      simp only [mapPosList, seqOf_map]
+      cases seqOf? s with
+      | none => exact hgo _
+      | some xs =>
+        simp only [Option.map_some, ih.mapLoop]
+        rcases mapLoop F st f xs d with ⟨r, s1⟩
+        cases r <;> simp only [mapRL, mapR, mapRes, mapPos, hg.none]
+    | _ :: _ :: _ :: _ => exact hgo _
+  simp only [hn, ↓reduceIte]; clear hn
+  by_cases hn : name = "atom"
+  · simp only [hn, ↓reduceIte]
+    match args with
+    | [] => exact hgo _
+    | [v] => simp only [mapPosList, mapSt_newAtom, mapR, mapRes, mapPos]
+    | _ :: _ :: _ => exact hgo _
+  simp only [hn, ↓reduceIte]; clear hn
+  have hat : ∀ id, (mapSt g st).atoms.getD id .nil = mapPos g (st.atoms.getD id .nil) := by
+    intro id
+    simp only [mapSt, Array.getD_eq_getD_getElem?, Array.getElem?_map]
+    cases st.atoms[id]? <;> rfl
+  have hset : ∀ (s1 : State) (id : Nat) (v : Val),
+      ({ mapSt g s1 with atoms := (mapSt g s1).atoms.setIfInBounds id (mapPos g v) } : State) =
+        mapSt g { s1 with atoms := s1.atoms.setIfInBounds id v } := by
+    intro s1 id v
+    simp only [mapSt, Array.map_setIfInBounds]
+  have hrf : ((.err (.lisp (.str "reflect: Call using") none), mapSt g st) : R) =
+      mapR g (.err (.lisp (.str "reflect: Call using") none), st) := by
+    simp only [mapR, mapRes, mapErr, mapPos, hg.none]
+  by_cases hn : name = "deref"
+  · simp only [hn, ↓reduceIte]
+    match args with
+    | [] => exact hgo _
+    | [a] =>
+      cases a <;> first
+        | exact hrf
+        | simp only [mapPosList, mapPos, hat, mapR, mapRes]
+    | a :: _ :: _ => cases a <;> exact hgo _
+  simp only [hn, ↓reduceIte]; clear hn
+  by_cases hn : name = "reset!"
+  · simp only [hn, ↓reduceIte]
+    match args with
+    | [] => exact hgo _
+    | [a] => cases a <;> exact hgo _
+    | [a, v] =>
+      cases a <;> first
+        | exact hgo _
+        | simp only [mapPosList, mapPos, hset, mapR, mapRes]
+    | a :: _ :: _ :: _ => cases a <;> exact hgo _
+  simp only [hn, ↓reduceIte]; clear hn
+  by_cases hn : name = "swap!"
+  · simp only [hn, ↓reduceIte]
+    match args with
+    | [] => exact hgo _
+    | [a] => cases a <;> exact hgo _
+    | a :: f :: extra =>
+      cases a <;> first
+        | exact hgo _
+        | skip
+      rename_i id
+      simp only [mapPosList, mapPos, hat]
+      have := ih.apply st f (st.atoms.getD id .nil :: extra) d
+      simp only [mapPosList] at this
+      rw [this]
+      rcases apply F st f (st.atoms.getD id .nil :: extra) d with ⟨r, s1⟩
+      cases r with
+      | ok v => simp only [mapR, mapRes, hset]
+      | err e => rfl
+      | oof => rfl
+  simp only [hn, ↓reduceIte]; clear hn
+  by_cases hn : name = "update"
+  · simp only [hn, ↓reduceIte]
+    match args with
+    | [] => exact hgo _
+    | [a] => cases a <;> exact hgo _
+    | [a, _] => cases a <;> exact hgo _
+    | [v, i, f] =>
+      cases v <;> first
+        | rfl
+        | exact ih.update1 st _ i f d
+    | a :: _ :: _ :: _ :: _ => cases a <;> exact hgo _
+  simp only [hn, ↓reduceIte]; clear hn
+  by_cases hn : name = "update-in"
+  · simp only [hn, ↓reduceIte]
+    match args with
+    | [] => exact hgo _
+    | [_] => exact hgo _
+    | [_, b] => cases b <;> exact hgo _
+    | [v, p, f] =>
+      cases p <;> first
+        | exact hrf
+        | skip
+      rename_i path pp
+      cases v <;> first
+        | rfl
+        | exact ih.updateIn st _ path f d
+    | _ :: b :: _ :: _ :: _ => cases b <;> exact hgo _
+  simp only [hn, ↓reduceIte]; clear hn
+  rw [call_map hg]
+  cases Core.call name args with
+  | none => exact hgo _
+  | some b =>
+    cases b with
+    | ok v => rfl
+    | thrown v => simp only [Option.map_some, mapBRes, mapR, mapRes, mapErr, hg.none]
+    | goerr m => exact hgo _
+
+/-- the Stepper prologue of `EVAL`: the callback sees the form, its command sets the flags -/
+def prologue (sp : Stepper) (ast : Val) : Stepper × Bool :=
+  if !sp.skip then
+    let cmd := sp.script.headD .noop
+    let sp := { sp with script := sp.script.tail, calls := ast :: sp.calls }
+    match cmd with
+    | .next => ({ sp with skip := true }, true)
+    | .stepIn => ({ sp with skip := false, outing1 := false }, false)
+    | .stepOut => ({ sp with skip := true, outing1 := true }, false)
+    | .noop => (sp, false)
+  else (sp, false)
+
+/-- the deferred flag resets of `EVAL` -/
+def epilogue (hadOuting2 isNext : Bool) (st' : State) : State :=
+  match st'.stepper with
+  | none => st'
+  | some sp' =>
+    let sp' := if hadOuting2 then { sp' with skip := false, outing2 := false } else sp'
+    let sp' := if isNext then { sp' with skip := false } else sp'
+    { st' with stepper := some sp' }
+
+theorem eval_eq_some {F : Nat} {st : State} {sp : Stepper} (h : st.stepper = some sp) (env : Nat) (ast : Val) (d : Nat) :
+    eval (F+1) st env ast d =
+      ((evalLoop F { st with stepper := some (prologue sp ast).1 } env ast d).1,
+        epilogue (prologue sp ast).1.outing2 (prologue sp ast).2
+          (evalLoop F { st with stepper := some (prologue sp ast).1 } env ast d).2) := by
+  rw [eval.eq_2]
+  simp only [h]
+  rfl
+
+theorem prologue_map (sp : Stepper) (ast : Val) :
+    prologue (mapStepper g sp) (mapPos g ast) = (mapStepper g (prologue sp ast).1, (prologue sp ast).2) := by
+  unfold prologue
+  have e1 : (mapStepper g sp).skip = sp.skip := rfl
+  have e2 : (mapStepper g sp).script = sp.script := rfl
+  rw [e1, e2]
+  cases sp.skip with
+  | true => rfl
+  | false =>
+    simp only [Bool.not_false, if_true]
+    cases sp.script.headD .noop <;> rfl
+
+theorem epilogue_map (b1 b2 : Bool) (s : State) : epilogue b1 b2 (mapSt g s) = mapSt g (epilogue b1 b2 s) := by
+  unfold epilogue
+  rw [mapSt_stepper]
+  cases s.stepper with
+  | none => rfl
+  | some sp' => cases b1 <;> cases b2 <;> rfl
+
+include ih in
+theorem eval_comm (st : State) (env : Nat) (ast : Val) (d : Nat) :
+    eval (F+1) (mapSt g st) env (mapPos g ast) d = mapR g (eval (F+1) st env ast d) := by
+  cases h : st.stepper with
+  | none =>
+    have h' : (mapSt g st).stepper = none := by rw [mapSt_stepper, h]; rfl
+    rw [eval.eq_2, eval.eq_2]
+    simp only [h, h']
+    exact ih.evalLoop st env ast d
+  | some sp =>
+    have h' : (mapSt g st).stepper = some (mapStepper g sp) := by rw [mapSt_stepper, h]; rfl
+    rw [eval_eq_some h, eval_eq_some h', prologue_map]
+    have e : ({ mapSt g st with stepper := some (mapStepper g (prologue sp ast).1) } : State) =
+        mapSt g { st with stepper := some (prologue sp ast).1 } := rfl
+    simp only [e, ih.evalLoop, mapR, epilogue_map]
+    rfl
+
+include ih in
+theorem continueWith_comm (st : State) (env : Nat) (ast : Val) (d : Nat) :
+    continueWith F (mapSt g st) env (mapPos g ast) d = mapR g (continueWith F st env ast d) := by
+  unfold continueWith
+  rw [mapSt_stepper]
+  cases st.stepper with
+  | none => exact ih.evalLoop st env ast d
+  | some sp => exact ih.eval st env ast (d+1)
+
+include hg ih in
+theorem tryCatch_comm (parts : TryParts) (env d : Nat) (r : Res Val) (st : State) :
+    tryCatch F (mapParts g parts) env d (mapRes (mapPos g) g r) (mapSt g st) =
+      mapR g (tryCatch F parts env d r st) := by
+  unfold tryCatch
+  cases r with
+  | ok v => rfl
+  | oof => rfl
+  | err e =>
+    simp only [mapRes, mapParts]
+    cases parts.catchDo with
+    | none => rfl
+    | some handler =>
+      cases parts.catchBind with
+      | none => rfl
+      | some bind =>
+        simp only [Option.map_some]
+        have hb := bindParams_map hg (.list [bind] none) [caughtValue e]
+        simp only [mapPos, mapPosList, hg.none, ← caughtValue_map] at hb
+        rw [hb]
+        cases bindParams (.list [bind] none) [caughtValue e] with
+        | error be => rfl
+        | ok data => simp only [mapBind, mapSt_newScope, ih.doForms]
+
+include ih in
+theorem tryFinally_comm (parts : TryParts) (env d : Nat) (r : Res Val) (st : State) :
+    tryFinally F (mapParts g parts) env d (mapRes (mapPos g) g r) (mapSt g st) =
+      mapR g (tryFinally F parts env d r st) := by
+  have main : ∀ r : Res Val, (match (mapParts g parts).finallyDo with
+      | none => ((mapRes (mapPos g) g r, outing1Defer (mapSt g st)) : R)
+      | some fin =>
+        match doForms F (mapSt g st) env fin 0 false d with
+        | (.oof, st) => (.oof, st)
+        | (_, st) => (mapRes (mapPos g) g r, st)) = mapR g (match parts.finallyDo with
+      | none => (r, outing1Defer st)
+      | some fin =>
+        match doForms F st env fin 0 false d with
+        | (.oof, st) => (.oof, st)
+        | (_, st) => (r, st)) := by
+    intro r
+    simp only [mapParts]
+    cases parts.finallyDo with
+    | none => simp only [Option.map_none, outing1Defer_map, mapR]
+    | some fin =>
+      simp only [Option.map_some, ih.doForms]
+      rcases doForms F st env fin 0 false d with ⟨r2, s2⟩
+      cases r2 <;> rfl
+  unfold tryFinally
+  cases r with
+  | oof => rfl
+  | ok v => exact main _
+  | err e => exact main _
+
+theorem not_list_map {ast : Val} (h : ∀ xs p, ast ≠ .list xs p) : ∀ xs p, mapPos g ast ≠ .list xs p := by
+  intro xs p e
+  obtain ⟨ys, q, rfl, _⟩ := mapPos_eq_list e
+  exact h _ _ rfl
+
+include hg in
+theorem nle_plain (m : String) (c : Val) (s : State) :
+    ((.err (newLispError (.plain m) (mapPos g c)), mapSt g s) : R) =
+      mapR g (.err (newLispError (.plain m) c), s) := by
+  simp only [mapR, mapRes]; rw [← newLispError_map hg]; rfl
+
+section arms
+variable {st s0 s1 : State} {env d : Nat} {xs ops : List Val} {a0 : Val} {p p' : Option Pos}
+  (hp : st.poll = (false, s0)) (hp' : (mapSt g st).poll = (false, mapSt g s0))
+  (hm : macroexpand F s0 env (.list xs p) d = (.ok (.list (a0 :: ops) p'), s1))
+  (hm' : macroexpand F (mapSt g s0) env (.list (mapPosList g xs) (g p)) d =
+    (.ok (.list (mapPos g a0 :: mapPosList g ops) (g p')), mapSt g s1))
+
+include hg ih hp hp' hm hm' in
+theorem arm_def (ha : a0sym a0 = "def") :
+    evalLoop (F+1) (mapSt g st) env (.list (mapPosList g xs) (g p)) d =
+      mapR g (evalLoop (F+1) st env (.list xs p) d) := by
+  rw [evalLoop_def hp' hm' (by rw [a0sym_map]; exact ha), evalLoop_def hp hm ha]
+  rw [mapPosList_getD, mapPosList_getD, ih.eval]
+  rcases eval F s1 env (ops.getD 1 .nil) (d+1) with ⟨r, s2⟩
+  cases r with
+  | ok res =>
+    simp only [mapR, mapRes]
+    cases ops.getD 0 .nil <;> first
+      | exact nle_plain hg _ (.list (a0 :: ops) p') _
+      | simp only [mapPos, mapSt_set, mapR, mapRes]
+  | err e => rfl
+  | oof => rfl
+
+include hg ih hp hp' hm hm' in
+theorem arm_let (ha : a0sym a0 = "let") :
+    evalLoop (F+1) (mapSt g st) env (.list (mapPosList g xs) (g p)) d =
+      mapR g (evalLoop (F+1) st env (.list xs p) d) := by
+  rw [evalLoop_let hp' hm' (by rw [a0sym_map]; exact ha), evalLoop_let hp hm ha]
+  have hns : (mapSt g s1).newScope env [] = (mapSt g (s1.newScope env []).1, (s1.newScope env []).2) :=
+    mapSt_newScope s1 env []
+  rw [mapPosList_getD, seqOf_map, hns]
+  cases seqOf? (ops.getD 0 .nil) with
+  | none => rfl
+  | some arr1 =>
+    simp only [Option.map_some, mapPosList_length]
+    split
+    · exact nle_plain hg _ _ _
+    · rw [ih.letBinds]
+      rcases letBinds F (s1.newScope env []).1 (s1.newScope env []).2 arr1 (ops.getD 0 .nil) d with ⟨r, s2⟩
+      cases r with
+      | ok _ =>
+        simp only [mapR, mapRes]
+        have := ih.doForms s2 (s1.newScope env []).2 (a0 :: ops) 2 true d
+        simp only [mapPosList] at this
+        rw [this]
+        rcases doForms F s2 (s1.newScope env []).2 (a0 :: ops) 2 true d with ⟨r3, s3⟩
+        cases r3 with
+        | ok next => simp only [mapR, mapRes]; exact continueWith_comm ih s3 _ next d
+        | err e => rfl
+        | oof => rfl
+      | err e => rfl
+      | oof => rfl
+
+include hp hp' hm hm' in
+theorem arm_quote (ha : a0sym a0 = "quote") :
+    evalLoop (F+1) (mapSt g st) env (.list (mapPosList g xs) (g p)) d =
+      mapR g (evalLoop (F+1) st env (.list xs p) d) := by
+  rw [evalLoop_quote hp' hm' (by rw [a0sym_map]; exact ha), evalLoop_quote hp hm ha, mapPosList_getD]
+  rfl
+
+include hg hp hp' hm hm' in
+theorem arm_quasiquoteexpand (ha : a0sym a0 = "quasiquoteexpand") :
+    evalLoop (F+1) (mapSt g st) env (.list (mapPosList g xs) (g p)) d =
+      mapR g (evalLoop (F+1) st env (.list xs p) d) := by
+  rw [evalLoop_quasiquoteexpand hp' hm' (by rw [a0sym_map]; exact ha), evalLoop_quasiquoteexpand hp hm ha,
+    mapPosList_getD, quasiquote_map hg]
+  rfl
+
+include hg ih hp hp' hm hm' in
+theorem arm_quasiquote (ha : a0sym a0 = "quasiquote") :
+    evalLoop (F+1) (mapSt g st) env (.list (mapPosList g xs) (g p)) d =
+      mapR g (evalLoop (F+1) st env (.list xs p) d) := by
+  rw [evalLoop_quasiquote hp' hm' (by rw [a0sym_map]; exact ha), evalLoop_quasiquote hp hm ha,
+    mapPosList_getD, quasiquote_map hg]
+  exact continueWith_comm ih _ _ _ _
+
+include hg ih hp hp' hm hm' in
+theorem arm_defmacro (ha : a0sym a0 = "defmacro") :
+    evalLoop (F+1) (mapSt g st) env (.list (mapPosList g xs) (g p)) d =
+      mapR g (evalLoop (F+1) st env (.list xs p) d) := by
+  rw [evalLoop_defmacro hp' hm' (by rw [a0sym_map]; exact ha), evalLoop_defmacro hp hm ha]
+  rw [mapPosList_getD, mapPosList_getD, ih.eval]
+  rcases eval F s1 env (ops.getD 1 .nil) (d+1) with ⟨r, s2⟩
+  cases r with
+  | ok f =>
+    simp only [mapR, mapRes]
+    cases f <;> first
+      | exact nle_plain hg _ (.list (a0 :: ops) p') _
+      | skip
+    simp only [mapPos]
+    cases ops.getD 0 .nil <;> first
+      | exact nle_plain hg _ (.list (a0 :: ops) p') _
+      | (simp only [mapPos, mapR, mapRes]; rw [← mapSt_set]; simp only [mapPos])
+  | err e => rfl
+  | oof => rfl
+
+include ih hp hp' hm hm' in
+theorem arm_macroexpand (ha : a0sym a0 = "macroexpand") :
+    evalLoop (F+1) (mapSt g st) env (.list (mapPosList g xs) (g p)) d =
+      mapR g (evalLoop (F+1) st env (.list xs p) d) := by
+  rw [evalLoop_macroexpand hp' hm' (by rw [a0sym_map]; exact ha), evalLoop_macroexpand hp hm ha,
+    mapPosList_getD]
+  exact ih.macroexpand _ _ _ _
+
+include ih hp hp' hm hm' in
+theorem arm_do (ha : a0sym a0 = "do") :
+    evalLoop (F+1) (mapSt g st) env (.list (mapPosList g xs) (g p)) d =
+      mapR g (evalLoop (F+1) st env (.list xs p) d) := by
+  rw [evalLoop_do hp' hm' (by rw [a0sym_map]; exact ha), evalLoop_do hp hm ha]
+  have := ih.doForms s1 env (a0 :: ops) 1 true d
+  simp only [mapPosList] at this
+  rw [this]
+  rcases doForms F s1 env (a0 :: ops) 1 true d with ⟨r, s2⟩
+  cases r with
+  | ok next => simp only [mapR, mapRes]; exact continueWith_comm ih s2 _ next d
+  | err e => rfl
+  | oof => rfl
+
+include ih hp hp' hm hm' in
+theorem arm_if (ha : a0sym a0 = "if") :
+    evalLoop (F+1) (mapSt g st) env (.list (mapPosList g xs) (g p)) d =
+      mapR g (evalLoop (F+1) st env (.list xs p) d) := by
+  rw [evalLoop_if hp' hm' (by rw [a0sym_map]; exact ha), evalLoop_if hp hm ha]
+  rw [mapPosList_getD, mapPosList_getD, ih.eval]
+  rcases eval F s1 env (ops.getD 0 .nil) (d+1) with ⟨r, s2⟩
+  cases r with
+  | ok cond =>
+    simp only [mapR, mapRes, truthy_map, List.length_cons, mapPosList_length]
+    split
+    · exact continueWith_comm ih s2 _ _ d
+    · split
+      · have : (mapPos g a0 :: mapPosList g ops).getD 3 .nil = mapPos g ((a0 :: ops).getD 3 .nil) := by
+          rw [← mapPosList_cons, mapPosList_getD]
+        rw [this]
+        exact continueWith_comm ih s2 _ _ d
+      · rfl
+  | err e => rfl
+  | oof => rfl
+
+include hg hp hp' hm hm' in
+theorem arm_fn (ha : a0sym a0 = "fn") :
+    evalLoop (F+1) (mapSt g st) env (.list (mapPosList g xs) (g p)) d =
+      mapR g (evalLoop (F+1) st env (.list xs p) d) := by
+  rw [evalLoop_fn hp' hm' (by rw [a0sym_map]; exact ha), evalLoop_fn hp hm ha]
+  simp only [List.length_cons, mapPosList_length]
+  split
+  · exact nle_plain hg _ (.list (a0 :: ops) p') _
+  · simp only [mapR, mapRes, mapPos, mapPosList_getD, hg.none, ← mapPosList_cons, mapPosList_drop]
+    simp only [mapPosList, mapPos, hg.none]
+
+include hg ih hp hp' hm hm' in
+theorem arm_try (ha : a0sym a0 = "try") :
+    evalLoop (F+1) (mapSt g st) env (.list (mapPosList g xs) (g p)) d =
+      mapR g (evalLoop (F+1) st env (.list xs p) d) := by
+  rw [evalLoop_try hp' hm' (by rw [a0sym_map]; exact ha), evalLoop_try hp hm ha]
+  rw [mapPosList_isEmpty]
+  split
+  · rfl
+  · rw [← mapPosList_cons, splitTry_map]
+    cases splitTry (a0 :: ops) with
+    | error msg => exact nle_plain hg _ (.list (a0 :: ops) p') _
+    | ok parts =>
+      simp only [mapSplit]
+      have hb : doForms F (mapSt g s1) env (mapParts g parts).body 0 false d =
+          mapR g (doForms F s1 env parts.body 0 false d) := ih.doForms s1 env parts.body 0 false d
+      rw [hb]
+      rcases doForms F s1 env parts.body 0 false d with ⟨rb, sb⟩
+      have hc := tryCatch_comm hg ih parts env d rb sb
+      simp only [mapR] at hc ⊢
+      rw [hc]
+      rcases tryCatch F parts env d rb sb with ⟨rc, sc⟩
+      exact tryFinally_comm ih parts env d rc sc
+
+include hg ih hp hp' hm hm' in
+theorem arm_app (ha : a0sym a0 ∉ specialForms) :
+    evalLoop (F+1) (mapSt g st) env (.list (mapPosList g xs) (g p)) d =
+      mapR g (evalLoop (F+1) st env (.list xs p) d) := by
+  rw [evalLoop_app hp' hm' (by rw [a0sym_map]; exact ha), evalLoop_app hp hm ha]
+  have := ih.evalList s1 env (a0 :: ops) d
+  simp only [mapPosList] at this
+  rw [this]
+  rcases evalList F s1 env (a0 :: ops) d with ⟨r, s2⟩
+  cases r with
+  | err e => rfl
+  | oof => rfl
+  | ok el =>
+    simp only [mapRL, mapRes]
+    cases el with
+    | nil => rfl
+    | cons f args =>
+      simp only [mapPosList]
+      cases f with
+      | fn params body fenv m fp =>
+        simp only [mapPos, bindParams_map hg]
+        cases hb : bindParams params args with
+        | ok data => simp only [mapBind, mapSt_newScope]; exact continueWith_comm ih _ _ body d
+        | error e =>
+          simp only [mapBind]
+          cases e with
+          | plain msg => exact nle_plain hg _ body _
+          | lisp pl pos =>
+            cases pl <;> first
+              | (simp only [mapErr, mapPos, mapR, mapRes, hg.none]; done)
+              | (simp only [mapR, mapRes]
+                 rw [← newLispError_map hg]; rfl)
+      | builtin name =>
+        simp only [mapPos, ih.callBuiltin]
+        rcases callBuiltin F s2 name args d with ⟨r3, s3⟩
+        cases r3 with
+        | ok v => rfl
+        | oof => rfl
+        | err e =>
+          simp only [mapR, mapRes]
+          rw [← newLispError_map hg]; rfl
+      | _ => simp only [mapPos, mapR, mapRes, mapErr, hg.none]
+
+end arms
+
+include hg ih in
+theorem evalLoop_comm (st : State) (env : Nat) (ast : Val) (d : Nat) :
+    evalLoop (F+1) (mapSt g st) env (mapPos g ast) d = mapR g (evalLoop (F+1) st env ast d) := by
+  rcases hp : st.poll with ⟨dn, s0⟩
+  have hp' : (mapSt g st).poll = (dn, mapSt g s0) := by rw [mapSt_poll, hp]
+  cases dn with
+  | true =>
+    rw [evalLoop_timeout hp', evalLoop_timeout hp]
+    exact nle_plain hg _ ast _
+  | false =>
+    by_cases hl : ∃ xs p, ast = .list xs p
+    case neg =>
+      have hl1 : ∀ xs p, ast ≠ .list xs p := fun xs p hc => hl ⟨xs, p, hc⟩
+      rw [evalLoop_nonlist hp' (not_list_map hl1), evalLoop_nonlist hp hl1]
+      exact ih.evalAst s0 env ast d
+    obtain ⟨xs, p, rfl⟩ := hl
+    rcases hm : macroexpand F s0 env (.list xs p) d with ⟨rm, s1⟩
+    have hm' : macroexpand F (mapSt g s0) env (.list (mapPosList g xs) (g p)) d = mapR g (rm, s1) := by
+      have := ih.macroexpand s0 env (.list xs p) d
+      rw [hm] at this; exact this
+    show evalLoop (F+1) (mapSt g st) env (.list (mapPosList g xs) (g p)) d = _
+    cases rm with
+    | err e => rw [evalLoop_mac_err hp' hm', evalLoop_mac_err hp hm]; rfl
+    | oof => rw [evalLoop_mac_oof hp' hm', evalLoop_mac_oof hp hm]; rfl
+    | ok ast' =>
+      by_cases hl' : ∃ ys q, ast' = .list ys q
+      case neg =>
+        have hl1 : ∀ ys q, ast' ≠ .list ys q := fun ys q hc => hl' ⟨ys, q, hc⟩
+        rw [evalLoop_mac_nonlist hp' hm' (not_list_map hl1), evalLoop_mac_nonlist hp hm hl1]
+        exact ih.evalAst s1 env ast' d
+      obtain ⟨ys, p', rfl⟩ := hl'
+      cases ys with
+      | nil => rw [evalLoop_mac_empty hp' hm', evalLoop_mac_empty hp hm]; rfl
+      | cons a0 ops =>
+        have hm'' : macroexpand F (mapSt g s0) env (.list (mapPosList g xs) (g p)) d =
+            (.ok (.list (mapPos g a0 :: mapPosList g ops) (g p')), mapSt g s1) := hm'
+        by_cases h_def : a0sym a0 = "def"
+        · exact arm_def hg ih hp hp' hm hm'' h_def
+        by_cases h_let : a0sym a0 = "let"
+        · exact arm_let hg ih hp hp' hm hm'' h_let
+        by_cases h_quote : a0sym a0 = "quote"
+        · exact arm_quote hp hp' hm hm'' h_quote
+        by_cases h_qqe : a0sym a0 = "quasiquoteexpand"
+        · exact arm_quasiquoteexpand hg hp hp' hm hm'' h_qqe
+        by_cases h_qq : a0sym a0 = "quasiquote"
+        · exact arm_quasiquote hg ih hp hp' hm hm'' h_qq
+        by_cases h_defmacro : a0sym a0 = "defmacro"
+        · exact arm_defmacro hg ih hp hp' hm hm'' h_defmacro
+        by_cases h_macroexpand : a0sym a0 = "macroexpand"
+        · exact arm_macroexpand ih hp hp' hm hm'' h_macroexpand
+        by_cases h_try : a0sym a0 = "try"
+        · exact arm_try hg ih hp hp' hm hm'' h_try
+        by_cases h_do : a0sym a0 = "do"
+        · exact arm_do ih hp hp' hm hm'' h_do
+        by_cases h_if : a0sym a0 = "if"
+        · exact arm_if ih hp hp' hm hm'' h_if
+        by_cases h_fn : a0sym a0 = "fn"
+        · exact arm_fn hg hp hp' hm hm'' h_fn
+        have ha : a0sym a0 ∉ specialForms := by
+          simp only [specialForms, List.mem_cons, List.not_mem_nil, or_false, not_or]
+          exact ⟨h_def, h_let, h_quote, h_qqe, h_qq, h_defmacro, h_macroexpand, h_try, h_do, h_if, h_fn⟩
+        exact arm_app hg ih hp hp' hm hm'' ha
+
+end steps
+
+/-- **the commutation theorem**: every function of the evaluator block, at every fuel, commutes with
+    every cursor map that keeps "no cursor" and respects "first position wins" -/
+theorem comm {g : Option Pos → Option Pos} (hg : PosMap g) : ∀ F, Comm g F := by
+  intro F
+  induction F with
+  | zero =>
+    constructor <;> intros
+    · rw [eval.eq_1, eval.eq_1]; rfl
+    · rw [evalLoop.eq_1, evalLoop.eq_1]; rfl
+    · unfold evalAst; rfl
+    · rw [evalList.eq_1, evalList.eq_1]; rfl
+    · rw [evalMap.eq_1, evalMap.eq_1]; rfl
+    · rw [doForms.eq_1, doForms.eq_1]; rfl
+    · unfold letBinds; rfl
+    · unfold macroexpand; rfl
+    · unfold apply; rfl
+    · rw [mapLoop.eq_1, mapLoop.eq_1]; rfl
+    · unfold updateIn; rfl
+    · unfold update1; rfl
+    · unfold callBuiltin; rfl
+  | succ F ih =>
+    exact ⟨eval_comm ih, evalLoop_comm hg ih, evalAst_comm hg ih, evalList_comm ih, evalMap_comm ih,
+      doForms_comm ih, letBinds_comm hg ih, macroexpand_comm hg ih, apply_comm hg ih, mapLoop_comm ih,
+      updateIn_comm hg ih, update1_comm hg ih, callBuiltin_comm hg ih⟩
+
+/-! ### consequences for property C19 -/
+
+/-- erase every cursor of a state -/
+def eraseSt : State → State := mapSt (fun _ => none)
+/-- erase every cursor of a result: value, error payload, error position, state -/
+def eraseR : R → R := mapR (fun _ => none)
+
+/-- values that differ only in cursors -/
+def ValEq (a b : Val) : Prop := erasePos a = erasePos b
+/-- states that differ only in cursors (same scope structure, same ticks, marks, poll oracle, debugger flags) -/
+def StEq (s t : State) : Prop := eraseSt s = eraseSt t
+/-- results that differ only in cursors; for errors this says: the payloads differ only in cursors — the
+    positions of the two errors are not compared (`eraseR` maps both to `none`) -/
+def REq (r r' : R) : Prop := eraseR r = eraseR r'
+
+theorem eval_erase (F : Nat) (st : State) (env : Nat) (ast : Val) (d : Nat) :
+    eval F (eraseSt st) env (erasePos ast) d = eraseR (eval F st env ast d) :=
+  (comm posMap_erase F).eval st env ast d
+
+theorem eval_ignores_positions (F : Nat) {st st' : State} (env : Nat) {ast ast' : Val} (d : Nat)
+    (hs : StEq st st') (ha : ValEq ast ast') : REq (eval F st env ast d) (eval F st' env ast' d) := by
+  unfold REq
+  rw [← eval_erase, ← eval_erase, hs, ha]
+
+theorem evalLoop_ignores_positions (F : Nat) {st st' : State} (env : Nat) {ast ast' : Val} (d : Nat)
+    (hs : StEq st st') (ha : ValEq ast ast') : REq (evalLoop F st env ast d) (evalLoop F st' env ast' d) := by
+  unfold REq eraseR
+  rw [← (comm posMap_erase F).evalLoop, ← (comm posMap_erase F).evalLoop]
+  show evalLoop F (eraseSt st) env (erasePos ast) d = evalLoop F (eraseSt st') env (erasePos ast') d
+  rw [hs, ha]
+
+theorem apply_ignores_positions (F : Nat) {st st' : State} {f f' : Val} {args args' : List Val} (d : Nat)
+    (hs : StEq st st') (hf : ValEq f f')
+    (hargs : mapPosList (fun _ => none) args = mapPosList (fun _ => none) args') :
+    REq (apply F st f args d) (apply F st' f' args' d) := by
+  unfold REq eraseR
+  rw [← (comm posMap_erase F).apply, ← (comm posMap_erase F).apply]
+  show apply F (eraseSt st) (erasePos f) _ d = apply F (eraseSt st') (erasePos f') _ d
+  rw [hs, hf, hargs]
+
+/-- what `REq` says about the components -/
+theorem REq_ok {v v' : Val} {s s' : State} (h : REq (.ok v, s) (.ok v', s')) : ValEq v v' ∧ StEq s s' := by
+  simp only [REq, eraseR, mapR, mapRes, Prod.mk.injEq, Res.ok.injEq] at h; exact h
+theorem REq_err {pl pl' : Val} {q q' : Option Pos} {s s' : State}
+    (h : REq (.err (.lisp pl q), s) (.err (.lisp pl' q'), s')) : ValEq pl pl' ∧ StEq s s' := by
+  simp only [REq, eraseR, mapR, mapRes, mapErr, Prod.mk.injEq, Res.err.injEq, Err.lisp.injEq, and_true] at h
+  exact h
+theorem StEq_same {s s' : State} (h : StEq s s') :
+    s.ticks = s'.ticks ∧ s.marks = s'.marks ∧ s.cancelAt = s'.cancelAt ∧ s.scopes.size = s'.scopes.size ∧
+    mapPosList (fun _ => none) s.trace = mapPosList (fun _ => none) s'.trace := by
+  have h1 := congrArg State.ticks h
+  have h2 := congrArg State.marks h
+  have h3 := congrArg State.cancelAt h
+  have h4 := congrArg (fun s => s.scopes.size) h
+  have h5 := congrArg State.trace h
+  simp only [eraseSt, mapSt, Array.size_map] at h1 h2 h3 h4 h5
+  exact ⟨h1, h2, h3, h4, h5⟩
+/-- a result is never related to a result of another kind -/
+theorem REq_kind {r r' : R} (h : REq r r') :
+    (∃ v v', r.1 = .ok v ∧ r'.1 = .ok v') ∨ (∃ e e', r.1 = .err e ∧ r'.1 = .err e') ∨ (r.1 = .oof ∧ r'.1 = .oof) := by
+  obtain ⟨r1, s1⟩ := r
+  obtain ⟨r2, s2⟩ := r'
+  simp only [REq, eraseR, mapR, Prod.mk.injEq] at h
+  cases r1 <;> cases r2 <;> simp [mapRes] at h ⊢
+
+/-! ### `do` creates no scope -/
+
+theorem getAux_ticks (st : State) (t : Nat) (n id : Nat) (k : String) :
+    State.getAux { st with ticks := t } n id k = State.getAux st n id k := by
+  induction n generalizing id with
+  | zero => rfl
+  | succ n ih =>
+    simp only [State.getAux, State.scope?]
+    cases st.scopes[id]? with
+    | none => rfl
+    | some sc =>
+      simp only
+      cases alookup k sc.data with
+      | some v => rfl
+      | none => simp only; cases sc.outer with
+        | none => rfl
+        | some o => exact ih o
+
+theorem tick_get (st : State) (env : Nat) (k : String) : (tick st).get env k = st.get env k :=
+  getAux_ticks st _ _ env k
+
+theorem poll_std {st : State} (h : st.cancelAt = none) : st.poll = (false, tick st) := by
+  simp only [State.poll, h, tick]
+
+theorem macroexpand_notMacro {F : Nat} {st : State} {env d : Nat} {s : String} {q p : Option Pos}
+    {args : List Val} (h : NotMacro st env s) :
+    macroexpand (F+1) st env (.list (.sym s q :: args) p) d = (.ok (.list (.sym s q :: args) p), st) := by
+  rw [macroexpand.eq_2]
+  cases hg : st.get env s with
+  | none => rfl
+  | some v =>
+    cases v with
+    | fn ps b e m fp =>
+      cases m with
+      | true => exact absurd hg (h ps b e fp)
+      | false => rfl
+    | _ => rfl
+
+/-- the forms of `(do f₁ … fₙ)` are evaluated in the SAME scope `env` and on the same store, left to
+    right (`evalList` is by definition the sequence `eval … env fᵢ`, threading the state), and the loop
+    continues with `fₙ` — again in `env`.  No scope is created: feeding the forms one by one to the
+    evaluator in `env` performs the same evaluations (modulo the one extra poll `tick`). -/
+theorem do_creates_no_scope {F : Nat} {st : State} {env d : Nat} {q p : Option Pos} {forms : List Val}
+    (hs : st.stepper = none) (hc : st.cancelAt = none) (hnm : NotMacro st env "do") (hne : forms ≠ []) :
+    evalLoop (F+2) st env (.list (.sym "do" q :: forms) p) d =
+      match evalList F (tick st) env forms.dropLast d with
+      | (.ok _, s2) => continueWith (F+1) s2 env (forms.getLast?.getD .nil) d
+      | (.err e, s2) => (.err e, s2)
+      | (.oof, s2) => (.oof, s2) := by
+  have hnm' : NotMacro (tick st) env "do" := by
+    intro ps b e fp; rw [tick_get]; exact hnm ps b e fp
+  rw [evalLoop_do (poll_std hc) (macroexpand_notMacro hnm') rfl, doForms_eq]
+  have hh : hadOuting1 (tick st) = false := by
+    unfold hadOuting1; rw [show (tick st).stepper = st.stepper from rfl, hs]
+  have hlen : ¬ (Val.sym "do" q :: forms).length ≤ 1 := by
+    cases forms with
+    | nil => exact absurd rfl hne
+    | cons a r => simp
+  have hlast : (Val.sym "do" q :: forms).getLast? = forms.getLast? := by
+    cases forms with
+    | nil => exact absurd rfl hne
+    | cons a r => rfl
+  rw [hh, if_neg hlen, hlast]
+  simp only [doFin, List.drop_succ_cons, List.drop_zero, if_true, Bool.false_eq_true, if_false]
+  rcases evalList F (tick st) env forms.dropLast d with ⟨r, s2⟩
+  cases r <;> rfl
+
 end LispModel.Proofs.EvalErase
